@@ -3,12 +3,38 @@
    (CborEncProof / CborRoundtrip / CborDecProof for CBOR, JsonEncProof /
    JsonDecProof for JSON).
 
-   Part 1  a simulation lemma: the unmarshaller does not distinguish a token list
-           from a respelling of it (Int/Uint, declared lengths; and, for an atlas
-           stripped of its tags, untagged token lists)
+   Part 1  a simulation lemma ([unmarshal_respell]): if the unmarshaller completes a
+           value on a token list, it completes the same value on any respelling of the
+           list (Int/Uint below 2^63, declared lengths replaced by -1 or kept; and, between
+           an atlas stripped of its tags and the atlas itself, untagged lists).
+           [unmarshal_canon]: the instance for the CBOR-canonical respelling.  The
+           converse direction fails ([canon_not_interchangeable_backwards]).
    Part 2  top-level plumbing: reset_fails, the fixed fuel of unmarshal_top
-   Part 3  CBOR end to end (cbor_marshal_total, cbor_end_to_end, cbor_remarshal)
-   Part 4  JSON end to end *)
+   Part 3  CBOR end to end: [cbor_marshal_total], [cbor_end_to_end] (C01), [cbor_remarshal] (C12)
+   Part 4  JSON end to end: [json_marshal_total], [json_end_to_end], [json_remarshal] (inside a Section with the
+           float oracle hypothesis of JsonEncProof.v; floats that read back as themselves),
+           [json_end_to_end_float_free] (unconditional)
+   Part 5  [wt_tokens_in_range]: integer ranges and byte payloads follow from well-typedness;
+           the theorems again with the side conditions reduced to what [wt] cannot give
+           ([cbor_end_to_end_wt], [cbor_remarshal_wt], [json_end_to_end_wt], ...)
+   Part 6  JSON with all floats the oracle covers: the value read back is related to the
+           token-level round-trip value by [jrel] ([json_end_to_end_floats]); a non-vacuous
+           instance of the oracle hypothesis ([f15_hyp]).
+   Part 7  the key lemma as an equation ([unmarshal_canon_eq]): when declared map lengths are
+           >= -1 and Int tokens are at most MaxInt64, the unmarshaller's outcome (value, error
+           position, starvation) on the CBOR-canonical spelling is its outcome on the original.
+
+   Hypotheses of the main theorems, beyond those of RoundTripProof.v (atlas_wf, wt, domb,
+   omit_ok, rmv):
+     cranked A 3      (BoundsProof.v) the fixed fuel of [unmarshal_top] is enough
+     cbor_ok / cbor_caps   the emitted tokens are within the CBOR codec's limits
+     json_repr / json_caps the emitted tokens are ones JSON represents faithfully
+     domb E (untag_atlas A) t v   (JSON) the round-trip domain for the atlas without its
+                      tags: untyped slots hold native values only ([jdomb_any])
+     names_ok A       (Part 5) serial names in the atlas are byte strings
+   Fuel: [marshal_top] / [unmarshal_top] are used with their fixed fuel formulas; only the
+   re-marshalling of the value read back (C12) is stated for explicit fuel and, for the
+   fixed formula, under the condition that it does not run out (see [cbor_remarshal]). *)
 From Coq Require Import List ZArith Bool Lia ZifyBool ZifyNat Permutation Sorted.
 Require Import Tok TokGrammar TokGrammarProof CborSpec CborEnc CborEncProof CborDec CborParse
                CborDecProof CborRoundtrip Utf8 JsonEnc JsonFloat JsonDec JsonParse JsonDecProof
@@ -369,6 +395,7 @@ Proof.
   - auto.
   - exact I.
 Qed.
+Print Assumptions unmarshal_respell_same.
 
 (* ---------- the CBOR respelling --------------------------------------------------- *)
 
@@ -893,6 +920,7 @@ Section MUntag.
     marshal A f t v = MOk ts -> marshal A0 f t v = MOk (map untag_tok ts).
   Proof. intros f t v ts H. destruct (untag_all f) as (Hm & _). rewrite Hm, H. reflexivity. Qed.
 End MUntag.
+Print Assumptions marshal_untag.
 
 (* ---------- well-typedness and well-formedness do not look at tags ------------------- *)
 
@@ -942,6 +970,18 @@ Proof.
   apply entry_wf_untag. apply H. exact He.
 Qed.
 
+Lemma omit_type_ok_untag A t : omit_type_ok (untag_atlas A) t = omit_type_ok A t.
+Proof. unfold omit_type_ok. rewrite atlas_get_untag. destruct (atlas_get A t); reflexivity. Qed.
+
+Lemma omit_ok_untag A : omit_ok A = true -> omit_ok (untag_atlas A) = true.
+Proof.
+  unfold omit_ok. cbn [untag_atlas a_entries]. rewrite !forallb_forall. intros H e0 He.
+  apply in_map_iff in He. destruct He as (e & <- & He). specialize (H e He).
+  cbn [untag_entry ae_kind]. destruct (ae_kind e); try reflexivity.
+  rewrite <- H. apply forallb_ext_Forall. apply Forall_forall. intros fe _.
+  rewrite omit_type_ok_untag. reflexivity.
+Qed.
+
 (* on untagged tokens the unmarshaller behaves alike with the stripped atlas and the real one *)
 Definition notag : option Z -> Prop := fun tg => tg = None.
 
@@ -987,6 +1027,7 @@ Proof.
     cbn [option_map] in Hg. inversion Hg; subst e. cbn [untag_entry ae_kind] in Hk.
     eapply req_transform; [exact G|exact Hk|exact Hd|exact Hd'|exact Hw|exact Hw'|apply IH; exact Hr].
 Qed.
+Print Assumptions req_untag.
 
 (* ---------- JSON marshal / unmarshal -------------------------------------------------- *)
 
@@ -1021,6 +1062,17 @@ Section JsonE2E.
   Definition json_marshal (o : jopts) (E : tenv) (A : atlas) (t : gtype) (v : gval) : option bytes :=
     match marshal_top E A t v with MOk ts => json_encode o ts | _ => None end.
 
+  (* the JSON encoder does not look at tags *)
+  Lemma jenc_run_untag o : forall ts s n, jenc_run sh o s (map untag_tok ts) n = jenc_run sh o s ts n.
+  Proof.
+    induction ts as [|t ts IH]; intros s n; [reflexivity|]. cbn [map jenc_run].
+    change (jenc_step sh o s (untag_tok t)) with (jenc_step sh o s t).
+    destruct (jenc_step sh o s t) as [[s' out] r]. destruct r; try reflexivity. rewrite IH. reflexivity.
+  Qed.
+
+  Lemma json_encode_untag o ts : json_encode o (map untag_tok ts) = json_encode o ts.
+  Proof. unfold json_encode, jenc_tokens. rewrite jenc_run_untag, map_length. reflexivity. Qed.
+
   (* a float whose shortest text reads back as the same float (not as an integer: "1" for
      1.0 would come back as Int 1) *)
   Definition fstable (b : Z) : bool := match fnorm b with VFlt b' => b' =? b | _ => false end.
@@ -1038,18 +1090,28 @@ Section JsonE2E.
     end.
   Definition json_toks_ok (ts : list token) : bool := forallb json_tok_ok ts.
 
-  Lemma toks_json_ok n : json_toks_ok (flatten n) = true -> plain_string_keys n -> json_ok float_okP n.
+  (* the same without the stability requirement on floats (Part 6) *)
+  Definition json_tok_okf (t : token) : bool :=
+    match tv t with
+    | Byt _ => false
+    | Str s => bytes_okb s && valid_utf8 s
+    | Int i => (min_int64 <=? i) && (i <=? max_int64)
+    | Uint u => (0 <=? u) && (u <=? max_uint64)
+    | Flt b => float_okb b
+    | _ => true
+    end.
+
+  Lemma toks_json_okf n : forallb json_tok_okf (flatten n) = true -> plain_string_keys n -> json_ok float_okP n.
   Proof.
-    unfold json_toks_ok.
     induction n as [tg v Hleaf|tg d items IH|tg d es IH] using tnode_ind'; intros Ht Hp.
-    - assert (Ht' : json_tok_ok (Tok (leaf_tok v) tg) = true).
+    - assert (Ht' : json_tok_okf (Tok (leaf_tok v) tg) = true).
       { rewrite flatten_leaf in Ht by (destruct v; try contradiction; reflexivity).
         cbn [forallb] in Ht. apply andb_prop in Ht. apply Ht. }
-      clear Ht. unfold json_tok_ok in Ht'. cbn [tv] in Ht'.
+      clear Ht. unfold json_tok_okf in Ht'. cbn [tv] in Ht'.
       destruct v; try contradiction; cbn [leaf_tok] in Ht'; cbn [json_ok]; try exact I; try lia;
         try discriminate.
       + apply andb_prop in Ht'. apply bytes_okb_ok. apply Ht'.
-      + apply andb_prop in Ht'. apply Ht'.
+      + exact Ht'.
     - apply forallb_flatten_arr in Ht. destruct Ht as [_ H2].
       cbn [plain_string_keys] in Hp. apply fold_pair_Forall in Hp.
       cbn [json_ok]. apply fold_pair_Forall. clear -IH H2 Hp.
@@ -1067,9 +1129,18 @@ Section JsonE2E.
       inversion H2 as [|? ? [T1 T2] ?]; inversion Hp as [|? ? [P1 P2] ?]; subst. cbn [fst snd] in *.
       constructor; [|apply IHxs; assumption]. cbn [fst snd]. split; [|apply Hw; assumption].
       destruct k as [[g|] kv]; try contradiction. destruct kv; try contradiction.
-      cbn [flatten forallb] in T1. unfold json_tok_ok in T1. cbn [tv] in T1.
+      cbn [flatten forallb] in T1. unfold json_tok_okf in T1. cbn [tv] in T1.
       apply andb_prop in T1. destruct T1 as [T1 _]. apply andb_prop in T1. apply bytes_okb_ok. apply T1.
   Qed.
+
+  Lemma json_tok_ok_okf t : json_tok_ok t = true -> json_tok_okf t = true.
+  Proof.
+    destruct t as [v tg]. unfold json_tok_ok, json_tok_okf. cbn [tv]. destruct v; auto.
+    intros H. apply andb_prop in H. apply H.
+  Qed.
+
+  Lemma toks_json_ok n : json_toks_ok (flatten n) = true -> plain_string_keys n -> json_ok float_okP n.
+  Proof. intros H. apply toks_json_okf. revert H. apply forallb_imp. apply json_tok_ok_okf. Qed.
 
   (* the JSON reading of such tokens is a respelling of the untagged tokens *)
   Lemma jnorm_rel ts : json_toks_ok ts = true ->
@@ -1099,7 +1170,9 @@ Section JsonE2E.
     exists bs v',
       json_encode o ts = Some bs /\
       json_unmarshal E A t bs = Some (UTDone (length ts) v') /\
-      req E A t v v' /\ wt E A t v'.
+      req E A t v v' /\ wt E A t v' /\
+      (omit_ok A = true -> rmv v = true -> forall f'', (f <= f'')%nat ->
+         exists ts2, marshal A f'' t v' = MOk ts2 /\ json_encode o ts2 = Some bs).
   Proof.
     intros Ho Hwf Hcr Hw Hd H Hc.
     destruct (marshal_wf A f t v ts H) as (n & -> & Hp & Hx).
@@ -1111,9 +1184,11 @@ Section JsonE2E.
     pose proof (marshal_untag A f t v _ H) as H0.
     assert (Hw0 : wt E (untag_atlas A) t v) by (unfold wt; rewrite wtb_untag; exact Hw).
     destruct (roundtrip_general E (untag_atlas A) t v f _ (atlas_wf_untag E A Hwf) Hw0 Hd H0)
-      as (v' & Hreq & Hw' & [F HF] & _).
-    exists (concat chunks), v'. split; [|split; [|split; [apply req_untag; exact Hreq|]]].
-    - unfold json_encode. rewrite Hrun, Nat.eqb_refl. reflexivity.
+      as (v' & Hreq & Hw' & [F HF] & Hrm).
+    assert (Henc : json_encode o (flatten n) = Some (concat chunks))
+      by (unfold json_encode; rewrite Hrun, Nat.eqb_refl; reflexivity).
+    exists (concat chunks), v'. split; [|split; [|split; [apply req_untag; exact Hreq|split]]].
+    - exact Henc.
     - unfold json_unmarshal. rewrite Hdec.
       pose proof (top_tail_ws o n Ho) as Hws. unfold ws_bytes in Hws. rewrite Hws. f_equal.
       rewrite <- (map_length (jnorm_tok fnorm) (flatten n)).
@@ -1122,6 +1197,11 @@ Section JsonE2E.
       destruct (unmarshal_respell_untag E A f' t _ _ _ v' [] (jnorm_rel _ Hc) HF) as (rest' & U & Hr).
       inversion Hr; subst. exact U.
     - unfold wt in *. rewrite wtb_untag in Hw'. exact Hw'.
+    - intros Ho' Hrv f'' Hle. specialize (Hrm (omit_ok_untag A Ho') Hrv f'' Hle).
+      destruct (untag_all A f'') as (Hm & _). rewrite Hm in Hrm.
+      destruct (marshal A f'' t v') as [ts2| |]; try discriminate Hrm. cbn [mmap] in Hrm.
+      inversion Hrm as [Heq]. exists ts2. split; [reflexivity|].
+      rewrite <- json_encode_untag, Heq, json_encode_untag. exact Henc.
   Qed.
 
   (* the side condition: the tokens the marshaller emits are ones JSON represents faithfully *)
@@ -1162,12 +1242,43 @@ Section JsonE2E.
     intros o E A t v bs Ho Hwf Hcr Hw Hd Hc Hm.
     destruct (json_marshal_inv o E A t v bs Hm) as (ts & M & Hm' & Hc'). rewrite Hc' in Hc. clear Hm Hc'.
     revert M. generalize (200 + 12 * vsize 100 v)%nat. intros f0 M.
-    destruct (json_core o E A t v _ ts Ho Hwf Hcr Hw Hd M Hc) as (bs' & v' & He & Hu & Hr & Hw').
+    destruct (json_core o E A t v _ ts Ho Hwf Hcr Hw Hd M Hc) as (bs' & v' & He & Hu & Hr & Hw' & _).
     rewrite Hm' in He. inversion He; subst bs'. exists (length ts), v'. auto.
+  Qed.
+
+  Definition json_marshal_with (o : jopts) (fuel : nat) (A : atlas) (t : gtype) (v : gval) : option bytes :=
+    match marshal A fuel t v with MOk ts => json_encode o ts | _ => None end.
+
+  (* C12 at the byte level, JSON (same fuel remarks as for [cbor_remarshal]) *)
+  Theorem json_remarshal : forall o E A t v bs,
+    ws_opts o ->
+    atlas_wf E A = true -> cranked A 3 = true -> omit_ok A = true ->
+    wt E A t v -> domb E (untag_atlas A) t v = true -> rmv v = true -> json_repr E A t v = true ->
+    json_marshal o E A t v = Some bs ->
+    exists n v', json_unmarshal E A t bs = Some (UTDone n v') /\ req E A t v v' /\
+      (forall f, (200 + 12 * vsize 100 v <= f)%nat -> json_marshal_with o f A t v' = Some bs) /\
+      (marshal_top E A t v' <> MFuel -> json_marshal o E A t v' = Some bs).
+  Proof.
+    intros o E A t v bs Ho Hwf Hcr Hom Hw Hd Hrv Hc Hm.
+    destruct (json_marshal_inv o E A t v bs Hm) as (ts & M & Hm' & Hc'). rewrite Hc' in Hc. clear Hm Hc'.
+    assert (G : exists f0, f0 = (200 + 12 * vsize 100 v)%nat) by eauto. destruct G as [f0 Hf0].
+    rewrite <- Hf0 in *.
+    destruct (json_core o E A t v _ ts Ho Hwf Hcr Hw Hd M Hc) as (bs' & v' & He & Hu & Hr & Hw' & Hrm).
+    rewrite Hm' in He. inversion He; subst bs'. exists (length ts), v'.
+    split; [exact Hu|]. split; [exact Hr|]. specialize (Hrm Hom Hrv).
+    assert (W : forall f, (f0 <= f)%nat -> json_marshal_with o f A t v' = Some bs).
+    { intros f Hle. unfold json_marshal_with. destruct (Hrm f Hle) as (ts2 & -> & He2). exact He2. }
+    split; [exact W|].
+    unfold json_marshal. rewrite marshal_top_eq.
+    generalize (200 + 12 * vsize 100 v')%nat. intros f' Hnf.
+    pose proof (marshal_fuel_mono A f' (Nat.max f' f0) t v' Hnf ltac:(lia)) as Hmono.
+    specialize (W (Nat.max f' f0) ltac:(lia)). unfold json_marshal_with in W.
+    rewrite Hmono in W. exact W.
   Qed.
 End JsonE2E.
 Print Assumptions json_marshal_total.
 Print Assumptions json_end_to_end.
+Print Assumptions json_remarshal.
 
 (* what the domain says about untyped slots once the tags are stripped: only native types *)
 Lemma jdomb_any A dt : RoundTripProof.any_ok (untag_atlas A) dt = native_slot A dt.
@@ -1205,6 +1316,19 @@ Proof.
   intros sh. exact (json_end_to_end sh no_floats no_fnorm (no_floats_hyp sh)).
 Qed.
 Print Assumptions json_end_to_end_float_free.
+
+Theorem json_remarshal_float_free : forall sh o E A t v bs,
+  ws_opts o ->
+  atlas_wf E A = true -> cranked A 3 = true -> omit_ok A = true ->
+  wt E A t v -> domb E (untag_atlas A) t v = true -> rmv v = true -> json_repr_ff E A t v = true ->
+  json_marshal sh o E A t v = Some bs ->
+  exists n v', json_unmarshal E A t bs = Some (UTDone n v') /\ req E A t v v' /\
+    (forall f, (200 + 12 * vsize 100 v <= f)%nat -> json_marshal_with sh o f A t v' = Some bs) /\
+    (marshal_top E A t v' <> MFuel -> json_marshal sh o E A t v' = Some bs).
+Proof.
+  intros sh. exact (json_remarshal sh no_floats no_fnorm (no_floats_hyp sh)).
+Qed.
+Print Assumptions json_remarshal_float_free.
 
 (* ---------- a non-trivial JSON instance ---------------------------------------------- *)
 (* The JSON-representable part of the CBOR instance: no byte array; the untyped slot holds
@@ -1264,7 +1388,9 @@ Example e2e_json_conclusion :
   json_marshal jex_sh (JOpts None []) jex_E jex_A (GStruct 1) jex_v = Some jex_compact /\
   json_marshal jex_sh (JOpts (Some [10]) [32]) jex_E jex_A (GStruct 1) jex_v = Some jex_pretty /\
   json_unmarshal jex_E jex_A (GStruct 1) jex_compact = Some (UTDone 25 jex_v') /\
-  json_unmarshal jex_E jex_A (GStruct 1) jex_pretty = Some (UTDone 25 jex_v').
+  json_unmarshal jex_E jex_A (GStruct 1) jex_pretty = Some (UTDone 25 jex_v') /\
+  json_marshal jex_sh (JOpts None []) jex_E jex_A (GStruct 1) jex_v' = Some jex_compact /\
+  omit_ok jex_A = true /\ rmv jex_v = true.
 Proof. vm_compute. repeat split; reflexivity. Qed.
 
 (* outside the JSON domain: an untyped slot holding a value of a tagged struct type comes
@@ -1272,9 +1398,1548 @@ Proof. vm_compute. repeat split; reflexivity. Qed.
 Definition jex_tagged : gval := VAny (Some (GStruct 3, VStruct [GVBool true])).
 Example json_tagged_slot_refuted :
   domb jex_E jex_A GAny jex_tagged = true /\ domb jex_E (untag_atlas jex_A) GAny jex_tagged = false /\
-  (exists bs, json_marshal jex_sh (JOpts None []) jex_E jex_A GAny jex_tagged = Some bs /\
-     json_unmarshal jex_E jex_A GAny bs =
-       Some (UTDone 4 (VAny (Some (GMap GStr GAny, GVMap (Some [(GVStr [111; 107], VAny (Some (GBool, GVBool true)))])))))) /\
-  (exists bs, cbor_marshal jex_E jex_A GAny jex_tagged = Some bs /\
-     cbor_unmarshal jex_E jex_A GAny bs = Some (UTDone 4 jex_tagged)).
-Proof. vm_compute. repeat split; try reflexivity; eexists; split; reflexivity. Qed.
+  json_marshal jex_sh (JOpts None []) jex_E jex_A GAny jex_tagged = Some [123; 34; 111; 107; 34; 58; 116; 114; 117; 101; 125] /\
+  json_unmarshal jex_E jex_A GAny [123; 34; 111; 107; 34; 58; 116; 114; 117; 101; 125] =
+    Some (UTDone 4 (VAny (Some (GMap GStr GAny, GVMap (Some [(GVStr [111; 107], VAny (Some (GBool, GVBool true)))]))))) /\
+  cbor_marshal jex_E jex_A GAny jex_tagged = Some [201; 161; 98; 111; 107; 245] /\
+  cbor_unmarshal jex_E jex_A GAny [201; 161; 98; 111; 107; 245] = Some (UTDone 4 jex_tagged).
+Proof. vm_compute. repeat split; reflexivity. Qed.
+
+(* ====================================================================== *)
+(* Part 5.  What well-typedness gives: integer ranges, byte payloads         *)
+(* ====================================================================== *)
+
+(* serial names in the atlas are byte strings (Go strings always are; here a string is a
+   list of Z) *)
+Definition names_ok (A : atlas) : bool :=
+  forallb (fun e => match ae_kind e with
+                    | EStruct fields => forallb (fun fe => bytes_ok (fe_name fe)) fields
+                    | EUnion ms => forallb (fun m => bytes_ok (fst m)) ms
+                    | _ => true
+                    end) (a_entries A).
+
+Definition rng_tok (t : token) : bool :=
+  match tv t with
+  | Int i => (-9223372036854775808 <=? i) && (i <? 9223372036854775808)
+  | Uint u => (0 <=? u) && (u <? 18446744073709551616)
+  | Str s | Byt s => bytes_ok s
+  | _ => true
+  end.
+
+Section Ranges.
+  Variable E : tenv.
+  Variable A : atlas.
+  Hypothesis Hwf : atlas_wf E A = true.
+  Hypothesis Hnm : names_ok A = true.
+
+  Definition R (ts : list token) : Prop := forallb rng_tok ts = true.
+
+  Lemma R_app a b : R (a ++ b) <-> R a /\ R b.
+  Proof. unfold R. rewrite forallb_app, andb_true_iff. reflexivity. Qed.
+
+  Lemma R_cons t ts : R (t :: ts) <-> rng_tok t = true /\ R ts.
+  Proof. unfold R. cbn [forallb]. rewrite andb_true_iff. reflexivity. Qed.
+
+  Lemma R_retag tg ts : R ts -> R (retag tg ts).
+  Proof. destruct tg as [g|]; [|auto]. destruct ts as [|[v t0] r]; auto. Qed.
+
+  Lemma R_one v tg : rng_tok (Tok v tg) = true -> R [Tok v tg].
+  Proof. intros H. apply R_cons. split; [exact H|reflexivity]. Qed.
+
+  Definition Q_m f := forall t v ts, wt E A t v -> marshal A f t v = MOk ts -> R ts.
+  Definition Q_bare f := forall t v ts, wt E A t v -> marshal_bare A f t v = MOk ts -> R ts.
+  Definition Q_kind f := forall t v ts, wt E A t v -> marshal_kind A f t v = MOk ts -> R ts.
+  Definition Q_items f := forall et l ts,
+    forallb (wtb E A et) l = true -> marshal_items A f et l = MOk ts -> R ts.
+  Definition Q_map f := forall mode kt vt o ts,
+    wt E A (GMap kt vt) (GVMap o) -> marshal_map A f mode kt vt o = MOk ts -> R ts.
+  Definition Q_entries f := forall vt es ts,
+    Forall (fun p => bytes_ok (fst p) = true /\ wt E A vt (snd p)) es ->
+    marshal_entries A f vt es = MOk ts -> R ts.
+  Definition Q_entry f := forall t e v ts,
+    atlas_get A t = Some e -> wt E A t v -> marshal_entry A f e v = MOk ts -> R ts.
+  Definition Q_fields f := forall st fields v ts,
+    wt E A st v ->
+    Forall (fun fe => bytes_ok (fe_name fe) = true /\ route_okb E st (fe_route fe) (fe_type fe) = true) fields ->
+    marshal_fields A f fields v = MOk ts -> R ts.
+
+  Lemma in_kind_rng k z : in_kind k z = true ->
+    rng_tok (Tok (if ik_signed k then Int z else Uint z) None) = true.
+  Proof.
+    unfold in_kind, rng_tok. destruct k; cbn [ik_signed ik_min ik_max tv]; lia.
+  Qed.
+
+  (* a stringified map key is a byte string *)
+  Lemma stringer_bytes kt str k s :
+    map_stringer A kt = Some str -> wt E A kt k -> str k = Some s -> bytes_ok s = true.
+  Proof.
+    unfold map_stringer. destruct (is_string_kind kt) eqn:Hk.
+    - intros H Hw Hs. inversion H; subst str. destruct k; try discriminate Hs. inversion Hs; subst.
+      unfold is_string_kind in Hk. unfold wt in Hw. cbn [wtb] in Hw.
+      destruct (strip_named kt); try discriminate Hk. exact Hw.
+    - destruct (strip_named kt) eqn:Hst; try discriminate.
+      destruct (atlas_get A kt) as [e|] eqn:Hg; [|discriminate].
+      destruct (atlas_wf_entry E A kt e Hwf Hg) as [He Het].
+      destruct e as [ty tg kd]. destruct kd as [fields|kind wire|members|mode]; try discriminate.
+      destruct (is_string_kind wire) eqn:Hsw; [|discriminate].
+      intros H Hw Hs. inversion H; subst str.
+      destruct (entry_wf_transform E A _ kind wire He eq_refl) as (Hty & _). cbn [ae_type] in Hty, Het. subst ty.
+      destruct (tr_fwd kind k) as [w|] eqn:Hf; [|discriminate Hs].
+      destruct w; try discriminate Hs. inversion Hs; subst.
+      pose proof (tr_fwd_wt E A kind kt wire k _ Hty Hw Hf) as Hww.
+      unfold is_string_kind in Hsw. unfold wt in Hww. cbn [wtb] in Hww.
+      destruct (strip_named wire); try discriminate Hsw. exact Hww.
+  Qed.
+
+  Lemma In_map_sorted' mode str es p :
+    In p (map_sorted mode (map_keyed str es)) ->
+    exists k x, In (k, x) es /\ snd p = x /\ fst p = match str k with Some s => s | None => [] end.
+  Proof.
+    unfold map_sorted, map_keyed. intros H. apply In_sort_keys in H.
+    apply in_map_iff in H. destruct H as (q & <- & H).
+    apply in_map_iff in H. destruct H as ([k x] & <- & H).
+    exists k, x. cbn [fst snd]. auto.
+  Qed.
+
+  Lemma names_struct t e fields fe :
+    atlas_get A t = Some e -> ae_kind e = EStruct fields -> In fe fields -> bytes_ok (fe_name fe) = true.
+  Proof.
+    intros G Hk Hin. apply atlas_get_In in G. unfold names_ok in Hnm. rewrite forallb_forall in Hnm.
+    specialize (Hnm e G). rewrite Hk in Hnm. rewrite forallb_forall in Hnm. exact (Hnm fe Hin).
+  Qed.
+
+  Lemma names_union t e ms m :
+    atlas_get A t = Some e -> ae_kind e = EUnion ms -> In m ms -> bytes_ok (fst m) = true.
+  Proof.
+    intros G Hk Hin. apply atlas_get_In in G. unfold names_ok in Hnm. rewrite forallb_forall in Hnm.
+    specialize (Hnm e G). rewrite Hk in Hnm. rewrite forallb_forall in Hnm. exact (Hnm m Hin).
+  Qed.
+
+  Lemma Q_m_step f : Q_bare f -> Q_m (S f).
+  Proof.
+    intros IHb t v ts Hw H. rewrite marshal_S in H. destruct (peel t) as [n base] eqn:P.
+    destruct (peel_deref_wt E A t v n base P Hw) as [(Hd & _) | (bv & Hd & Hb & _)]; rewrite Hd in H.
+    - inversion H; subst. reflexivity.
+    - eapply IHb; eassumption.
+  Qed.
+
+  Lemma Q_bare_step f : Q_kind f -> Q_entry f -> Q_bare (S f).
+  Proof.
+    intros IHk IHe t v ts Hw H. rewrite marshal_bare_S in H.
+    destruct (is_unnamed_prim t); [eapply IHk; eassumption|].
+    destruct (atlas_get A t) as [e|] eqn:G.
+    - eapply IHe; eassumption.
+    - eapply IHk; [|exact H]. apply wt_strip. exact Hw.
+  Qed.
+
+  Lemma Q_kind_step f : Q_m f -> Q_items f -> Q_map f -> Q_kind (S f).
+  Proof.
+    intros IHm IHi IHmp t v ts Hw H. rewrite marshal_kind_S in H. unfold wt in Hw.
+    destruct t; destruct v; try discriminate H; cbn [wtb strip_named] in Hw; try discriminate Hw.
+    - inversion H; subst. reflexivity.
+    - inversion H; subst. apply R_one. apply in_kind_rng. exact Hw.
+    - inversion H; subst. reflexivity.
+    - inversion H; subst. reflexivity.
+    - inversion H; subst. apply R_one. exact Hw.
+    - destruct o as [s|]; inversion H; subst; [|reflexivity]. apply R_one. exact Hw.
+    - inversion H; subst. apply R_one. apply andb_prop in Hw. apply Hw.
+    - destruct o as [l|]; [|inversion H; subst; reflexivity].
+      apply mprepend_ok in H. destruct H as (ts' & H & ->). apply R_cons. split; [reflexivity|].
+      eapply IHi; eassumption.
+    - apply mprepend_ok in H. destruct H as (ts' & H & ->). apply R_cons. split; [reflexivity|].
+      apply andb_prop in Hw. destruct Hw as [_ Hw]. eapply IHi; eassumption.
+    - eapply IHmp; [|exact H]. exact Hw.
+    - destruct o as [[dt dv]|]; [|inversion H; subst; reflexivity]. eapply IHm; [|exact H]. exact Hw.
+    - destruct o as [[dt dv]|]; [|inversion H; subst; reflexivity]. eapply IHm; [|exact H]. exact Hw.
+  Qed.
+
+  Lemma Q_items_step f : Q_m f -> Q_items f -> Q_items (S f).
+  Proof.
+    intros IHm IHi et l ts Hw H. rewrite marshal_items_S in H. destruct l as [|x r].
+    - inversion H; subst. reflexivity.
+    - cbn [forallb] in Hw. apply andb_prop in Hw. destruct Hw as [Hx Hr].
+      apply mseq_ok in H. destruct H as (ts1 & H1 & H). apply mprepend_ok in H. destruct H as (ts2 & H2 & ->).
+      apply R_app. split; [eapply IHm; eassumption|eapply IHi; eassumption].
+  Qed.
+
+  Lemma Q_map_step f : Q_entries f -> Q_map (S f).
+  Proof.
+    intros IHe mode kt vt o ts Hw H. rewrite marshal_map_S in H.
+    destruct (map_stringer A kt) as [str|] eqn:Hstr; [|discriminate]. cbv zeta in H.
+    destruct (existsb _ _) eqn:Hex; [discriminate|].
+    destruct o as [es|]; [|inversion H; subst; reflexivity].
+    apply mprepend_ok in H. destruct H as (ts' & H & ->). apply R_cons. split; [reflexivity|].
+    eapply IHe; [|exact H]. apply Forall_forall. intros p Hp.
+    destruct (In_map_sorted' _ _ _ _ Hp) as (k & x & Hin & Hsnd & Hfst).
+    unfold wt in Hw. cbn [wtb strip_named] in Hw.
+    apply andb_prop in Hw. destruct Hw as [Hw _]. apply andb_prop in Hw. destruct Hw as [_ Hw].
+    rewrite forallb_forall in Hw. specialize (Hw _ Hin). cbn [fst snd] in Hw.
+    apply andb_prop in Hw. destruct Hw as [Hk Hx]. rewrite Hsnd. split; [|exact Hx].
+    rewrite Hfst. destruct (str k) as [s|] eqn:Hs; [|reflexivity].
+    eapply stringer_bytes; eassumption.
+  Qed.
+
+  Lemma Q_entries_step f : Q_m f -> Q_entries f -> Q_entries (S f).
+  Proof.
+    intros IHm IHe vt es ts Hw H. rewrite marshal_entries_S in H. destruct es as [|[k x] r].
+    - inversion H; subst. reflexivity.
+    - inversion Hw as [|? ? [Hk Hx] Hr]; subst. cbn [fst snd] in *.
+      apply mprepend_ok in H. destruct H as (ts0 & H & ->).
+      apply mseq_ok in H. destruct H as (ts1 & H1 & H). apply mprepend_ok in H. destruct H as (ts2 & H2 & ->).
+      apply R_cons. split; [exact Hk|]. apply R_app. split; [eapply IHm; eassumption|eapply IHe; eassumption].
+  Qed.
+
+  Lemma Q_entry_step f : Q_m f -> Q_map f -> Q_entry f -> Q_fields f -> Q_entry (S f).
+  Proof.
+    intros IHm IHmp IHe IHf t e v ts G Hw H. rewrite marshal_entry_S in H.
+    destruct (atlas_wf_entry E A t e Hwf G) as [He Hty].
+    destruct (ae_kind e) as [fields|kind wire|members|mode] eqn:Hk.
+    - cbv zeta in H. apply mprepend_ok in H. destruct H as (ts' & H & ->).
+      apply R_cons. split; [reflexivity|].
+      destruct (entry_wf_struct E A e fields He Hk) as (id & _ & _ & Hfw & _).
+      eapply IHf; [exact Hw| |exact H]. apply Forall_forall. intros fe Hfe.
+      unfold live_fields in Hfe. apply filter_In in Hfe. destruct Hfe as [Hin Hp].
+      apply andb_prop in Hp. destruct Hp as [Hig _]. apply negb_true_iff in Hig.
+      destruct (field_facts E _ fields fe Hfw Hin Hig) as (Hr & _). rewrite Hty in Hr.
+      split; [eapply names_struct; eassumption|exact Hr].
+    - destruct (tr_fwd kind v) as [w|] eqn:Hf; [|discriminate].
+      apply wrap_transform_ok in H. destruct H as (ts' & H & ->). apply R_retag.
+      destruct (entry_wf_transform E A e kind wire He Hk) as (Htr & _). rewrite Hty in Htr.
+      eapply IHm; [|exact H]. eapply tr_fwd_wt; eassumption.
+    - destruct v; try discriminate. destruct o as [[mt mv]|]; [|discriminate].
+      destruct (find _ members) as [[nm ty]|] eqn:Hfi; [|discriminate].
+      destruct (find_member_type _ _ _ _ Hfi) as [-> Hin].
+      destruct (atlas_get A mt) as [me|] eqn:Gm; [|discriminate].
+      apply wrap_union_ok in H. destruct H as (ts' & H & ->).
+      destruct (entry_wf_union E A e members He Hk) as ([i Hs] & _).
+      rewrite Hty in Hs. unfold wt in Hw. cbn [wtb] in Hw. rewrite Hs in Hw.
+      cbn [app]. apply R_cons. split; [reflexivity|]. apply R_cons.
+      split; [exact (names_union t e members (nm, mt) G Hk Hin)|].
+      apply R_app. split; [|reflexivity]. eapply IHe; [exact Gm|exact Hw|exact H].
+    - destruct (entry_wf_morphism E A e mode He Hk) as (kt & vt & Hs). rewrite Hs in H.
+      destruct v; try discriminate. eapply IHmp; [|exact H].
+      apply wt_strip in Hw. rewrite <- Hty, Hs in Hw. exact Hw.
+  Qed.
+
+  Lemma Q_fields_step f : Q_m f -> Q_fields f -> Q_fields (S f).
+  Proof.
+    intros IHm IHf st fields v ts Hw Hfs H. rewrite marshal_fields_S in H. destruct fields as [|fe r].
+    - inversion H; subst. reflexivity.
+    - inversion Hfs as [|? ? [Hn Hr] Hrest]; subst.
+      destruct (traverse (fe_route fe) v) as [fv|] eqn:Ht; [|eapply IHf; eassumption].
+      apply mprepend_ok in H. destruct H as (ts0 & H & ->).
+      apply mseq_ok in H. destruct H as (ts1 & H1 & H). apply mprepend_ok in H. destruct H as (ts2 & H2 & ->).
+      apply R_cons. split; [exact Hn|]. apply R_app. split; [|eapply IHf; eassumption].
+      eapply IHm; [|exact H1]. eapply traverse_wt; eassumption.
+  Qed.
+
+  Lemma ranges_all : forall f,
+    Q_m f /\ Q_bare f /\ Q_kind f /\ Q_items f /\ Q_map f /\ Q_entries f /\ Q_entry f /\ Q_fields f.
+  Proof.
+    induction f as [|f (IHm & IHb & IHk & IHi & IHmp & IHes & IHe & IHf)].
+    - repeat split; intro; intros; discriminate.
+    - repeat split.
+      + apply Q_m_step; assumption.
+      + apply Q_bare_step; assumption.
+      + apply Q_kind_step; assumption.
+      + apply Q_items_step; assumption.
+      + apply Q_map_step; assumption.
+      + apply Q_entries_step; assumption.
+      + apply Q_entry_step; assumption.
+      + apply Q_fields_step; assumption.
+  Qed.
+End Ranges.
+
+(* For a well-typed value the marshaller emits only integers inside int64 / uint64 and
+   payloads made of bytes. *)
+Theorem wt_tokens_in_range : forall E A f t v ts,
+  atlas_wf E A = true -> names_ok A = true -> wt E A t v -> marshal A f t v = MOk ts ->
+  forallb rng_tok ts = true.
+Proof.
+  intros E A f t v ts Hwf Hnm Hw H. destruct (ranges_all E A Hwf Hnm f) as (Hm & _).
+  exact (Hm t v ts Hw H).
+Qed.
+Print Assumptions wt_tokens_in_range.
+
+(* ---------- the CBOR theorems with the side condition reduced to what [wt] cannot give -- *)
+
+(* tag range, the 32 MiB cap, float bit patterns, container lengths below 2^63 *)
+Definition cbor_cap_tok (t : token) : bool :=
+  match tag t with Some g => (0 <=? g) && (g <? 9223372036854775808) | None => true end &&
+  match tv t with
+  | Str s | Byt s => Z.of_nat (length s) <=? item_cap
+  | Flt b => (0 <=? b) && (b <? 18446744073709551616)
+  | ArrOpen d | MapOpen d => d <? 9223372036854775808
+  | _ => true
+  end.
+
+Definition cbor_caps (E : tenv) (A : atlas) (t : gtype) (v : gval) : bool :=
+  match marshal_top E A t v with MOk ts => forallb cbor_cap_tok ts | _ => true end.
+
+Lemma bytes_ok_okb s : bytes_ok s = true -> bytes_okb s = true.
+Proof. unfold bytes_ok, bytes_okb. apply forallb_imp. intros x. lia. Qed.
+
+Lemma cap_rng_ok t : rng_tok t = true -> cbor_cap_tok t = true -> cbor_tok_ok t = true.
+Proof.
+  destruct t as [v tg]. unfold rng_tok, cbor_cap_tok, cbor_tok_ok. cbn [tv tag]. intros Hr Hc.
+  apply andb_prop in Hc. destruct Hc as [Hg Hc]. rewrite Hg. cbn [andb].
+  destruct v; try reflexivity; try assumption.
+  - rewrite (bytes_ok_okb _ Hr), Hc. reflexivity.
+  - rewrite (bytes_ok_okb _ Hr), Hc. reflexivity.
+Qed.
+
+Lemma cbor_ok_of_wt E A t v :
+  atlas_wf E A = true -> names_ok A = true -> wt E A t v ->
+  cbor_caps E A t v = true -> cbor_ok E A t v = true.
+Proof.
+  intros Hwf Hnm Hw. unfold cbor_caps, cbor_ok. rewrite marshal_top_eq.
+  generalize (200 + 12 * vsize 100 v)%nat. intros f.
+  destruct (marshal A f t v) as [ts| |] eqn:M; try reflexivity.
+  pose proof (wt_tokens_in_range E A f t v ts Hwf Hnm Hw M) as Hr.
+  unfold cbor_toks_ok. rewrite !forallb_forall in *. intros Hc x Hx.
+  apply cap_rng_ok; auto.
+Qed.
+
+Corollary cbor_end_to_end_wt : forall E A t v bs,
+  atlas_wf E A = true -> cranked A 3 = true -> names_ok A = true ->
+  wt E A t v -> domb E A t v = true -> cbor_caps E A t v = true ->
+  cbor_marshal E A t v = Some bs ->
+  exists n v', cbor_unmarshal E A t bs = Some (UTDone n v') /\ req E A t v v' /\ wt E A t v'.
+Proof.
+  intros E A t v bs Hwf Hcr Hnm Hw Hd Hc. apply cbor_end_to_end; auto. apply cbor_ok_of_wt; auto.
+Qed.
+Print Assumptions cbor_end_to_end_wt.
+
+Corollary cbor_remarshal_wt : forall E A t v bs,
+  atlas_wf E A = true -> cranked A 3 = true -> names_ok A = true -> omit_ok A = true ->
+  wt E A t v -> domb E A t v = true -> rmv v = true -> cbor_caps E A t v = true ->
+  cbor_marshal E A t v = Some bs ->
+  exists n v', cbor_unmarshal E A t bs = Some (UTDone n v') /\ req E A t v v' /\
+    (forall f, (200 + 12 * vsize 100 v <= f)%nat -> cbor_marshal_with f A t v' = Some bs) /\
+    (marshal_top E A t v' <> MFuel -> cbor_marshal E A t v' = Some bs) /\
+    ((vsize 100 v <= vsize 100 v')%nat -> cbor_marshal E A t v' = Some bs).
+Proof.
+  intros E A t v bs Hwf Hcr Hnm Ho Hw Hd Hrv Hc. apply cbor_remarshal; auto. apply cbor_ok_of_wt; auto.
+Qed.
+Print Assumptions cbor_remarshal_wt.
+
+(* under the hypotheses, marshalling to CBOR succeeds whenever the object marshaller does *)
+Corollary cbor_marshal_total_wt : forall E A t v ts,
+  atlas_wf E A = true -> names_ok A = true -> wt E A t v -> cbor_caps E A t v = true ->
+  marshal_top E A t v = MOk ts -> exists bs, cbor_marshal E A t v = Some bs.
+Proof.
+  intros E A t v ts Hwf Hnm Hw Hc H.
+  pose proof (cbor_ok_of_wt E A t v Hwf Hnm Hw Hc) as Hok.
+  assert (Hok' : cbor_ok E A t v = cbor_toks_ok ts) by (unfold cbor_ok; rewrite H; reflexivity).
+  rewrite Hok' in Hok.
+  destruct (cbor_marshal_total E A t v ts H Hok) as (n & _ & Hm). eauto.
+Qed.
+Print Assumptions cbor_marshal_total_wt.
+
+Example e2e_cbor_hypotheses_wt :
+  names_ok ex_A = true /\ cbor_caps ex_E ex_A (GStruct 1) ex_v = true.
+Proof. vm_compute. split; reflexivity. Qed.
+
+(* ---------- the JSON theorems with the side condition reduced likewise ----------------- *)
+
+(* no byte strings, strings valid UTF-8, floats covered by the oracle and stable *)
+Definition json_cap_tok (float_okb : Z -> bool) (fnorm : Z -> tval) (t : token) : bool :=
+  match tv t with
+  | Byt _ => false
+  | Str s => valid_utf8 s
+  | Flt b => float_okb b && fstable fnorm b
+  | _ => true
+  end.
+
+Definition json_caps (float_okb : Z -> bool) (fnorm : Z -> tval)
+           (E : tenv) (A : atlas) (t : gtype) (v : gval) : bool :=
+  match marshal_top E A t v with MOk ts => forallb (json_cap_tok float_okb fnorm) ts | _ => true end.
+
+Lemma jcap_rng_ok fo fn t :
+  rng_tok t = true -> json_cap_tok fo fn t = true -> json_tok_ok fo fn t = true.
+Proof.
+  destruct t as [v tg]. unfold rng_tok, json_cap_tok, json_tok_ok, min_int64, max_int64, max_uint64.
+  cbn [tv]. intros Hr Hc.
+  destruct v; try reflexivity; try assumption; try lia.
+  rewrite (bytes_ok_okb _ Hr), Hc. reflexivity.
+Qed.
+
+Lemma json_repr_of_wt fo fn E A t v :
+  atlas_wf E A = true -> names_ok A = true -> wt E A t v ->
+  json_caps fo fn E A t v = true -> json_repr fo fn E A t v = true.
+Proof.
+  intros Hwf Hnm Hw. unfold json_caps, json_repr. rewrite marshal_top_eq.
+  generalize (200 + 12 * vsize 100 v)%nat. intros f.
+  destruct (marshal A f t v) as [ts| |] eqn:M; try reflexivity.
+  pose proof (wt_tokens_in_range E A f t v ts Hwf Hnm Hw M) as Hr.
+  unfold json_toks_ok. rewrite !forallb_forall in *. intros Hc x Hx.
+  apply jcap_rng_ok; auto.
+Qed.
+
+Corollary json_end_to_end_wt : forall sh float_okb fnorm,
+  (forall b rest, float_okP float_okb b -> terminator_ok rest ->
+     exists first more, emit_float sh b = Some [first :: more] /\
+       (first = 45 \/ is_digit first = true) /\
+       is_leaf (fnorm b) = true /\
+       dec_number first (more ++ rest) = inl (leaf_tok (fnorm b), rest) /\
+       match fnorm b with VInt _ | VUint _ | VFlt _ => True | _ => False end) ->
+  forall o E A t v bs,
+  ws_opts o ->
+  atlas_wf E A = true -> cranked A 3 = true -> names_ok A = true ->
+  wt E A t v -> domb E (untag_atlas A) t v = true -> json_caps float_okb fnorm E A t v = true ->
+  json_marshal sh o E A t v = Some bs ->
+  exists n v', json_unmarshal E A t bs = Some (UTDone n v') /\ req E A t v v' /\ wt E A t v'.
+Proof.
+  intros sh fo fn Hflt o E A t v bs Ho Hwf Hcr Hnm Hw Hd Hc.
+  apply (json_end_to_end sh fo fn Hflt); auto. apply json_repr_of_wt; auto.
+Qed.
+Print Assumptions json_end_to_end_wt.
+
+Corollary json_end_to_end_float_free_wt : forall sh o E A t v bs,
+  ws_opts o ->
+  atlas_wf E A = true -> cranked A 3 = true -> names_ok A = true ->
+  wt E A t v -> domb E (untag_atlas A) t v = true -> json_caps no_floats no_fnorm E A t v = true ->
+  json_marshal sh o E A t v = Some bs ->
+  exists n v', json_unmarshal E A t bs = Some (UTDone n v') /\ req E A t v v' /\ wt E A t v'.
+Proof.
+  intros sh. exact (json_end_to_end_wt sh no_floats no_fnorm (no_floats_hyp sh)).
+Qed.
+Print Assumptions json_end_to_end_float_free_wt.
+
+Example e2e_json_hypotheses_wt :
+  names_ok jex_A = true /\ json_caps no_floats no_fnorm jex_E jex_A (GStruct 1) jex_v = true.
+Proof. vm_compute. split; reflexivity. Qed.
+
+(* ====================================================================== *)
+(* Part 6.  JSON with floats that do not read back as themselves            *)
+(* ====================================================================== *)
+
+(* A float is written as its shortest decimal text.  [fnorm b] is the token value that
+   text reads back as: a float again, or an INTEGER when the text has no fraction or
+   exponent ("1" for 1.0, "-0" for -0.0).  The value unmarshalled from JSON is then related
+   to the value unmarshalled from the tokens themselves by [jrel]:
+     a float64 target holds [fback b] (the float the text denotes, or the integer
+        converted to float64);
+     a float32 target holds [round32 (fback b)];
+     an untyped slot holds what an untyped slot makes of the token read back: a float64,
+        or an int / uint64 when the text is an integer ([any_back b]);
+   everything else is equal. *)
+Section JsonFloats.
+  Variable fnorm : Z -> tval.
+  Variable fok : Z -> Prop.
+  Hypothesis Hfn : forall b, fok b ->
+    match fnorm b with VInt _ | VUint _ | VFlt _ => True | _ => False end.
+
+  Definition fback (b : Z) : Z :=
+    match fnorm b with VFlt b' => b' | VInt z | VUint z => int_to_f64 z | _ => b end.
+  Definition any_back (b : Z) : gval :=
+    match uany_scalar (leaf_tok (fnorm b)) with Some x => x | None => VAny None end.
+
+  Inductive jrel : gval -> gval -> Prop :=
+  | jr_refl v : jrel v v
+  | jr_f64 b : fok b -> jrel (GVFlt b) (GVFlt (fback b))
+  | jr_f32 b : fok b -> jrel (GVFlt (round32 b)) (GVFlt (round32 (fback b)))
+  | jr_any_flt b : fok b -> jrel (VAny (Some (GF64, GVFlt b))) (any_back b)
+  | jr_slice l l' : Forall2 jrel l l' -> jrel (VSlice (Some l)) (VSlice (Some l'))
+  | jr_arr l l' : Forall2 jrel l l' -> jrel (GVArr l) (GVArr l')
+  | jr_map es es' : Forall2 (fun p p' => fst p' = fst p /\ jrel (snd p) (snd p')) es es' ->
+                    jrel (GVMap (Some es)) (GVMap (Some es'))
+  | jr_ptr x x' : jrel x x' -> jrel (VPtr (Some x)) (VPtr (Some x'))
+  | jr_any dt x x' : jrel x x' -> jrel (VAny (Some (dt, x))) (VAny (Some (dt, x')))
+  | jr_struct l l' : Forall2 jrel l l' -> jrel (VStruct l) (VStruct l').
+
+  Definition prel (p p' : gval * gval) : Prop := fst p' = fst p /\ jrel (snd p) (snd p').
+
+  Lemma F2_refl {X} (Q : X -> X -> Prop) : (forall x, Q x x) -> forall l, Forall2 Q l l.
+  Proof. intros H. induction l; constructor; auto. Qed.
+
+  Lemma jrel_list_refl l : Forall2 jrel l l.
+  Proof. apply F2_refl. apply jr_refl. Qed.
+
+  Lemma prel_list_refl es : Forall2 prel es es.
+  Proof. apply F2_refl. intros p. split; [reflexivity|apply jr_refl]. Qed.
+
+  Lemma any_back_any b : exists o, any_back b = VAny o.
+  Proof.
+    unfold any_back. destruct (fnorm b); cbn [leaf_tok uany_scalar]; eauto.
+  Qed.
+
+  (* inversions *)
+  Lemma jrel_struct_inv fs y : jrel (VStruct fs) y -> exists fs', y = VStruct fs' /\ Forall2 jrel fs fs'.
+  Proof. intros H. inversion H; subst; eauto using jrel_list_refl. Qed.
+
+  Lemma jrel_ptr_inv o y : jrel (VPtr o) y ->
+    match o with
+    | None => y = VPtr None
+    | Some x => exists x', y = VPtr (Some x') /\ jrel x x'
+    end.
+  Proof. intros H. inversion H; subst; [destruct o; eauto using jr_refl|eauto]. Qed.
+
+  Lemma jrel_map_inv o y : jrel (GVMap o) y ->
+    match o with
+    | None => y = GVMap None
+    | Some es => exists es', y = GVMap (Some es') /\ Forall2 prel es es'
+    end.
+  Proof. intros H. inversion H; subst; [destruct o; eauto using prel_list_refl|eauto]. Qed.
+
+  Lemma jrel_any_inv o y : jrel (VAny o) y -> exists o', y = VAny o'.
+  Proof. intros H. inversion H; subst; eauto. apply any_back_any. Qed.
+
+  Definition not_ptr (v : gval) : Prop := match v with VPtr _ => False | _ => True end.
+
+  Lemma jrel_not_ptr v y : jrel v y -> not_ptr v -> not_ptr y.
+  Proof.
+    intros H. destruct H; cbn [not_ptr]; auto.
+    all: try (destruct (any_back_any b) as [o ->]; auto).
+  Qed.
+
+  (* values without a float or container at the head are related to themselves only *)
+  Definition plain_head (v : gval) : Prop :=
+    match v with GVBool _ | VNum _ | GVStr _ | VBytes _ | VByteArr _ | VBadV => True | _ => False end.
+  Lemma jrel_plain v y : plain_head v -> jrel v y -> y = v.
+  Proof. intros Hp H. destruct H; try contradiction; reflexivity. Qed.
+
+  Lemma jrel_wrap n : forall v v', jrel v v' -> jrel (wrap_ptrs n v) (wrap_ptrs n v').
+  Proof. induction n; intros v v' H; cbn [wrap_ptrs]; [exact H|apply jr_ptr; apply IHn; exact H]. Qed.
+
+  (* ---------- routes, pointers, transforms respect [jrel] ----------------------------- *)
+
+  Lemma F2_nth {X Y} (Q : X -> Y -> Prop) l l' i x :
+    Forall2 Q l l' -> nth_error l i = Some x -> exists x', nth_error l' i = Some x' /\ Q x x'.
+  Proof.
+    intros H. revert i. induction H as [|a b l l' Hab H IH]; intros [|i] Hn; try discriminate.
+    - inversion Hn; subst. exists b. split; [reflexivity|exact Hab].
+    - apply IH. exact Hn.
+  Qed.
+
+  Lemma F2_replace {X Y} (Q : X -> Y -> Prop) l l' i x x' :
+    Forall2 Q l l' -> Q x x' -> Forall2 Q (replace_nth l i x) (replace_nth l' i x').
+  Proof.
+    intros H Hx. revert i. induction H as [|a b l l' Hab H IH]; intros i; [destruct i; constructor|].
+    destruct i; cbn [replace_nth]; constructor; auto.
+  Qed.
+
+  Lemma F2_rev {X Y} (Q : X -> Y -> Prop) l l' : Forall2 Q l l' -> Forall2 Q (rev l) (rev l').
+  Proof.
+    induction 1 as [|a b l l' Hab H IH]; [constructor|]. cbn [rev].
+    apply Forall2_app; [exact IH|constructor; [exact Hab|constructor]].
+  Qed.
+
+  Definition rsplit (E : tenv) (t : gtype) (v : gval) : gtype * gval * bool :=
+    match t, v with
+    | GPtr t', VPtr (Some x) => (t', x, true)
+    | GPtr t', VPtr None => (t', zero_of E t', true)
+    | _, _ => (t, v, false)
+    end.
+
+  Lemma route_get_S2 E f t v i r : route_get E (S f) t v (i :: r) =
+    let '(st, sv, _) := rsplit E t v in
+    match strip_named st, sv with
+    | GStruct id, VStruct fs =>
+        match env_fields E id, nth_error fs i with
+        | Some fts, Some fv =>
+            match nth_error fts i with Some ft => route_get E f ft fv r | None => None end
+        | _, _ => None
+        end
+    | _, _ => None
+    end.
+  Proof.
+    rewrite route_get_S. unfold rsplit.
+    destruct t; try reflexivity; destruct v; try reflexivity; destruct o; reflexivity.
+  Qed.
+
+  Lemma route_set_S2 E f t v i r nv : route_set E (S f) t v (i :: r) nv =
+    let '(st, sv, wrap) := rsplit E t v in
+    match strip_named st, sv with
+    | GStruct id, VStruct fs =>
+        match env_fields E id, nth_error fs i with
+        | Some fts, Some fv =>
+            match nth_error fts i with
+            | Some ft =>
+                match route_set E f ft fv r nv with
+                | Some fv' =>
+                    let s' := VStruct (replace_nth fs i fv') in
+                    Some (if wrap then VPtr (Some s') else s')
+                | None => None
+                end
+            | None => None
+            end
+        | _, _ => None
+        end
+    | _, _ => None
+    end.
+  Proof.
+    rewrite route_set_S. unfold rsplit.
+    destruct t; try reflexivity; destruct v; try reflexivity; destruct o; reflexivity.
+  Qed.
+
+  Lemma rsplit_not_ptr E t v : not_ptr v -> rsplit E t v = (t, v, false).
+  Proof. intros H. unfold rsplit. destruct t; try reflexivity. destruct v; try reflexivity. contradiction. Qed.
+
+  Lemma rsplit_rel E t v v' : jrel v v' ->
+    exists st sv sv' w, rsplit E t v = (st, sv, w) /\ rsplit E t v' = (st, sv', w) /\ jrel sv sv'.
+  Proof.
+    intros H.
+    assert (D : (exists o, v = VPtr o) \/ not_ptr v) by (destruct v; cbn; eauto).
+    destruct D as [[o ->]|Hn].
+    - apply jrel_ptr_inv in H. destruct o as [x|].
+      + destruct H as (x' & -> & Hx). destruct t; try (do 4 eexists; split; [reflexivity|split; [reflexivity|apply jr_ptr; exact Hx]]).
+        do 4 eexists. split; [reflexivity|split; [reflexivity|exact Hx]].
+      + subst v'. destruct t; do 4 eexists; (split; [reflexivity|split; [reflexivity|apply jr_refl]]).
+    - rewrite (rsplit_not_ptr E t v Hn), (rsplit_not_ptr E t v' (jrel_not_ptr _ _ H Hn)).
+      do 4 eexists. split; [reflexivity|split; [reflexivity|exact H]].
+  Qed.
+
+  Lemma route_get_rel E : forall f t v v' r x,
+    jrel v v' -> route_get E f t v r = Some x -> exists x', route_get E f t v' r = Some x' /\ jrel x x'.
+  Proof.
+    induction f as [|f IH]; intros t v v' r x Hv H; [discriminate|].
+    destruct r as [|i r]; [cbn in *; inversion H; subst; eauto|].
+    rewrite route_get_S2 in H.
+    destruct (rsplit_rel E t v v' Hv) as (st & sv & sv' & w & E1 & E2 & Hs). rewrite E1 in H.
+    destruct (strip_named st) eqn:Hst; try discriminate. destruct sv; try discriminate.
+    destruct (jrel_struct_inv _ _ Hs) as (fs' & -> & Hfs).
+    destruct (env_fields E id) as [fts|] eqn:He; [|discriminate].
+    destruct (nth_error fields i) as [fv|] eqn:Hn; [|discriminate].
+    destruct (F2_nth _ _ _ _ _ Hfs Hn) as (fv' & Hn' & Hfv).
+    destruct (nth_error fts i) as [ft|] eqn:Hft; [|discriminate].
+    destruct (IH _ _ _ _ _ Hfv H) as (x' & Hx' & Hj). exists x'. split; [|exact Hj].
+    rewrite route_get_S2, E2, Hst, He, Hn', Hft. exact Hx'.
+  Qed.
+
+  Lemma route_set_rel E : forall f t v v' r nv nv' c,
+    jrel v v' -> jrel nv nv' -> route_set E f t v r nv = Some c ->
+    exists c', route_set E f t v' r nv' = Some c' /\ jrel c c'.
+  Proof.
+    induction f as [|f IH]; intros t v v' r nv nv' c Hv Hnv H; [discriminate|].
+    destruct r as [|i r]; [cbn in *; inversion H; subst; eauto|].
+    rewrite route_set_S2 in H.
+    destruct (rsplit_rel E t v v' Hv) as (st & sv & sv' & w & E1 & E2 & Hs). rewrite E1 in H.
+    destruct (strip_named st) eqn:Hst; try discriminate. destruct sv; try discriminate.
+    destruct (jrel_struct_inv _ _ Hs) as (fs' & -> & Hfs).
+    destruct (env_fields E id) as [fts|] eqn:He; [|discriminate].
+    destruct (nth_error fields i) as [fv|] eqn:Hn; [|discriminate].
+    destruct (F2_nth _ _ _ _ _ Hfs Hn) as (fv' & Hn' & Hfv).
+    destruct (nth_error fts i) as [ft|] eqn:Hft; [|discriminate].
+    destruct (route_set E f ft fv r nv) as [q|] eqn:Hq; [|discriminate].
+    destruct (IH _ _ _ _ _ _ _ Hfv Hnv Hq) as (q' & Hq' & Hqq).
+    cbv zeta in H. inversion H; subst c.
+    assert (Hstr : jrel (VStruct (replace_nth fields i q)) (VStruct (replace_nth fs' i q')))
+      by (apply jr_struct; apply F2_replace; assumption).
+    eexists. split; [rewrite route_set_S2, E2, Hst, He, Hn', Hft, Hq'; reflexivity|].
+    destruct w; [apply jr_ptr|]; exact Hstr.
+  Qed.
+
+  Lemma inner_cur_rel E : forall n t v v', jrel v v' -> jrel (inner_cur E n t v) (inner_cur E n t v').
+  Proof.
+    induction n as [|n IH]; intros t v v' H; [destruct t; exact H|].
+    destruct t; try exact H. cbn [inner_cur].
+    assert (D : (exists x, v = VPtr (Some x)) \/ (v = VPtr None) \/ not_ptr v)
+      by (destruct v as [| | | | | | | | |[x|]| | |]; cbn; eauto).
+    destruct D as [[x ->]|[->|Hn]].
+    - apply jrel_ptr_inv in H. destruct H as (x' & -> & Hx). apply IH. exact Hx.
+    - apply jrel_ptr_inv in H. subst v'. apply jr_refl.
+    - pose proof (jrel_not_ptr _ _ H Hn) as Hn'.
+      replace (match v with VPtr (Some x) => inner_cur E n t x | _ => inner_cur E n t (zero_of E t) end)
+        with (inner_cur E n t (zero_of E t)) by (destruct v; try reflexivity; contradiction).
+      replace (match v' with VPtr (Some x) => inner_cur E n t x | _ => inner_cur E n t (zero_of E t) end)
+        with (inner_cur E n t (zero_of E t)) by (destruct v'; try reflexivity; contradiction).
+      apply jr_refl.
+  Qed.
+
+  Lemma jrel_plain_list l l' : Forall plain_head l -> Forall2 jrel l l' -> l' = l.
+  Proof.
+    intros Hp H. induction H as [|a b l l' Hab H IH]; [reflexivity|].
+    inversion Hp; subst. rewrite (jrel_plain _ _ H2 Hab), IH by assumption. reflexivity.
+  Qed.
+
+  Lemma tr_bwd_rel kind w w' x :
+    jrel w w' -> tr_bwd kind w = Some x -> exists x', tr_bwd kind w' = Some x' /\ jrel x x'.
+  Proof.
+    intros Hw H.
+    assert (Same : w' = w -> exists x', tr_bwd kind w' = Some x' /\ jrel x x')
+      by (intros ->; exists x; split; [exact H|apply jr_refl]).
+    revert H. unfold tr_bwd. kind_cases kind; intros H; try discriminate H.
+    - (* 1 *) apply Same. destruct w; try discriminate H. (eapply jrel_plain; [|exact Hw]; exact I).
+    - (* 2 *) apply Same. destruct w; try discriminate H. (eapply jrel_plain; [|exact Hw]; exact I).
+    - (* 3 *) apply Same. destruct w; try discriminate H. (eapply jrel_plain; [|exact Hw]; exact I).
+    - (* 4 *) apply Same. shape H. inversion Hw; subst; [reflexivity|].
+      f_equal. f_equal. apply jrel_plain_list; [repeat constructor|assumption].
+    - (* 5 *) apply Same. shape H. destruct (jrel_struct_inv _ _ Hw) as (fs' & -> & Hfs).
+      f_equal. apply jrel_plain_list; [repeat constructor|assumption].
+    - (* 6 *) apply Same. destruct w; try discriminate H. (eapply jrel_plain; [|exact Hw]; exact I).
+    - (* 7 *) apply Same. shape H. destruct (jrel_struct_inv _ _ Hw) as (fs' & -> & Hfs).
+      f_equal. apply jrel_plain_list; [repeat constructor|assumption].
+    - (* 8 *) apply Same. destruct w; try discriminate H. (eapply jrel_plain; [|exact Hw]; exact I).
+    - (* 9 *) destruct w; try discriminate H. inversion H; subst x.
+      destruct (jrel_any_inv _ _ Hw) as [o' ->]. eexists. split; [reflexivity|].
+      apply jr_struct. constructor; [exact Hw|constructor].
+  Qed.
+
+  (* ---------- the simulation, with related results ------------------------------------- *)
+
+  Inductive vrel2 : tokv -> tokv -> Prop :=
+  | vr2_base v v' : vrel v v' -> vrel2 v v'
+  | vr2_flt b : fok b -> vrel2 (Flt b) (leaf_tok (fnorm b)).
+
+  Definition simres2 (T : token -> token -> Prop) (r r' : ures) : Prop :=
+    forall v rest, r = UOk v rest ->
+    exists v' rest', r' = UOk v' rest' /\ jrel v v' /\ Forall2 T rest rest'.
+
+  Lemma simres2_ok T v v' a a' : jrel v v' -> Forall2 T a a' -> simres2 T (UOk v a) (UOk v' a').
+  Proof. intros Hv H v0 rest E. inversion E; subst. eauto. Qed.
+  Lemma simres2_err T k r' : simres2 T (UErr k) r'.
+  Proof. intros v rest E. discriminate. Qed.
+  Lemma simres2_starved T r' : simres2 T UStarved r'.
+  Proof. intros v rest E. discriminate. Qed.
+  Lemma simres2_fuel T r' : simres2 T UFuel r'.
+  Proof. intros v rest E. discriminate. Qed.
+
+  Lemma simres2_ubind T r r' k k' :
+    simres2 T r r' ->
+    (forall x x' a a', jrel x x' -> Forall2 T a a' -> simres2 T (k x a) (k' x' a')) ->
+    simres2 T (ubind r k) (ubind r' k').
+  Proof.
+    intros H Hk v rest E. destruct r as [x a| | |]; try discriminate.
+    destruct (H x a eq_refl) as (x' & a' & -> & Hx & Ha). cbn [ubind] in *. exact (Hk x x' a a' Hx Ha v rest E).
+  Qed.
+
+  Section Sim2.
+    Variable E : tenv.
+    Variables A A' : atlas.
+    Variable tgk : option Z -> Prop.
+    Hypothesis HgetS : forall t e, atlas_get A t = Some e -> exists e', atlas_get A' t = Some e' /\ erel tgk e e'.
+    Hypothesis HgetN : forall t, atlas_get A t = None -> atlas_get A' t = None.
+    Hypothesis Htag : forall g, tgk (Some g) -> atlas_by_tag A' g = atlas_by_tag A g.
+    Hypothesis HtgN : tgk None.
+
+    Definition trel2 (t t' : token) : Prop :=
+      tag t' = tag t /\ tgk (tag t) /\ vrel2 (tv t) (tv t').
+
+    Notation sr := (simres2 trel2).
+
+    Lemma untag_rel2 tg tg' ts ts' :
+      (forall g, tgk (Some g) -> tg' = tg) -> Forall2 trel2 ts ts' ->
+      Forall2 trel2 (untag_own tg ts) (untag_own tg' ts').
+    Proof.
+      intros Ht H. destruct H as [|[v tt] [v' tt'] r r' (H1 & H2 & H3) Hr]; [destruct tg, tg'; constructor|].
+      cbn [tag tv] in *. subst tt'.
+      destruct tt as [g|].
+      - rewrite (Ht g H2). destruct tg as [t0|]; cbn [untag_own].
+        + destruct (t0 =? g); constructor; auto; repeat split; auto.
+        + constructor; auto. repeat split; auto.
+      - assert (X : forall o w (l : list token), untag_own o (Tok w None :: l) = Tok w None :: l) by (intros [?|]; reflexivity).
+        rewrite !X. constructor; auto. repeat split; auto.
+    Qed.
+
+    Lemma trel2_inv t t' : trel2 t t' -> exists v v' tg, t = Tok v tg /\ t' = Tok v' tg /\ tgk tg /\ vrel2 v v'.
+    Proof. destruct t as [v tg], t' as [v' tg']. intros (H1 & H2 & H3). cbn in *. subst. eauto 8. Qed.
+
+    Lemma F2_len2 (a a' : list token) : Forall2 trel2 a a' -> length a' = length a.
+    Proof. induction 1; cbn; congruence. Qed.
+
+    Definition S2_unm f := forall t cur cur' ts ts', jrel cur cur' -> Forall2 trel2 ts ts' ->
+      sr (unmarshal E A f t cur ts) (unmarshal E A' f t cur' ts').
+    Definition S2_bare f := forall t cur cur' ts ts', jrel cur cur' -> Forall2 trel2 ts ts' ->
+      sr (unmarshal_bare E A f t cur ts) (unmarshal_bare E A' f t cur' ts').
+    Definition S2_kind f := forall t cur cur' ts ts', jrel cur cur' -> Forall2 trel2 ts ts' ->
+      sr (unmarshal_kind E A f t cur ts) (unmarshal_kind E A' f t cur' ts').
+    Definition S2_any f := forall ts ts', Forall2 trel2 ts ts' ->
+      sr (unmarshal_any E A f ts) (unmarshal_any E A' f ts').
+    Definition S2_slice f := forall et acc acc' ts ts', Forall2 jrel acc acc' -> Forall2 trel2 ts ts' ->
+      sr (unmarshal_slice E A f et acc ts) (unmarshal_slice E A' f et acc' ts').
+    Definition S2_array f := forall n et acc acc' ts ts', Forall2 jrel acc acc' -> Forall2 trel2 ts ts' ->
+      sr (unmarshal_array E A f n et acc ts) (unmarshal_array E A' f n et acc' ts').
+    Definition S2_map f := forall kt vt cur cur' ts ts', jrel cur cur' -> Forall2 trel2 ts ts' ->
+      sr (unmarshal_map E A f kt vt cur ts) (unmarshal_map E A' f kt vt cur' ts').
+    Definition S2_mes f := forall destr vt es es' ts ts', Forall2 prel es es' -> Forall2 trel2 ts ts' ->
+      sr (unmarshal_map_entries E A f destr vt es ts) (unmarshal_map_entries E A' f destr vt es' ts').
+    Definition S2_entry f := forall e e' cur cur' ts ts', erel tgk e e' -> jrel cur cur' -> Forall2 trel2 ts ts' ->
+      sr (unmarshal_entry E A f e cur ts) (unmarshal_entry E A' f e' cur' ts').
+    Definition S2_fields f := forall st fields len len' cur cur' count ts ts',
+      (len' = len \/ len' = -1) -> jrel cur cur' -> Forall2 trel2 ts ts' ->
+      sr (unmarshal_fields E A f st fields len cur count ts) (unmarshal_fields E A' f st fields len' cur' count ts').
+
+    Ltac split2 H x x' r r' Hx Hr HL Hall v v' tg Hg Hv :=
+      destruct H as [|x x' r r' Hx Hr]; [try apply simres2_starved|];
+      [pose proof (F2_len2 _ _ Hr) as HL;
+       assert (Hall : Forall2 trel2 (x :: r) (x' :: r')) by (constructor; assumption);
+       destruct (trel2_inv _ _ Hx) as (v & v' & tg & -> & -> & Hg & Hv)].
+
+    (* the cases of a related head token: same payload; respelled container heads and
+       integers; a float read back as [fnorm] says *)
+    Ltac vcases2 Hv v' :=
+      let Hb := fresh "Hb" in let Hf := fresh "Hf" in let Hk := fresh "Hk" in
+      inversion Hv as [? ? Hb|? Hf]; subst;
+      [inversion Hb; subst; [destruct v'| | | | ]
+      |pose proof (Hfn _ Hf) as Hk; destruct (fnorm _) eqn:?; try contradiction; cbn [leaf_tok] in *].
+
+    Lemma uprim2 t cur cur' ts ts' : jrel cur cur' -> Forall2 trel2 ts ts' -> sr (uprim t cur ts) (uprim t cur' ts').
+    Proof.
+      intros Hc H. destruct H as [|x x' r r' Hx Hr]; [apply simres2_starved|].
+      pose proof (F2_len2 _ _ Hr) as HL.
+      destruct (trel2_inv _ _ Hx) as (v & v' & tg & -> & -> & Hg & Hv).
+      unfold uprim. cbn [length]. rewrite HL.
+      inversion Hv as [? ? Hb|b Hf]; subst.
+      - inversion Hb; subst.
+        + destruct t; destruct v'; try apply simres2_err;
+            try (apply simres2_ok; [apply jr_refl|exact Hr]);
+            try (match goal with |- sr (if ?c then _ else _) _ => destruct c end; try apply simres2_err;
+                 apply simres2_ok; [first [exact Hc|apply jr_refl]|exact Hr]).
+        + destruct t; apply simres2_err.
+        + destruct t; apply simres2_err.
+        + destruct t; try apply simres2_err; try (apply simres2_ok; [apply jr_refl|exact Hr]).
+          destruct (in_kind k z); [apply simres2_ok; [apply jr_refl|exact Hr]|apply simres2_err].
+        + destruct t; try apply simres2_err; try (apply simres2_ok; [apply jr_refl|exact Hr]).
+          destruct (in_kind k z); [apply simres2_ok; [apply jr_refl|exact Hr]|apply simres2_err].
+      - pose proof (Hfn _ Hf) as Hk.
+        assert (F64 : forall c, simres2 trel2 (UOk (GVFlt b) r)
+                   (match leaf_tok (fnorm b) with
+                    | Flt b0 => UOk (GVFlt b0) r' | Int z | Uint z => UOk (GVFlt (int_to_f64 z)) r' | _ => c end)).
+        { intros c. pose proof (jr_f64 b Hf) as J. unfold fback in J.
+          destruct (fnorm b); try contradiction; cbn [leaf_tok]; apply simres2_ok; assumption. }
+        assert (F32 : forall c, simres2 trel2 (UOk (GVFlt (round32 b)) r)
+                   (match leaf_tok (fnorm b) with
+                    | Flt b0 => UOk (GVFlt (round32 b0)) r'
+                    | Int z | Uint z => UOk (GVFlt (round32 (int_to_f64 z))) r' | _ => c end)).
+        { intros c. pose proof (jr_f32 b Hf) as J. unfold fback in J.
+          destruct (fnorm b); try contradiction; cbn [leaf_tok]; apply simres2_ok; assumption. }
+        destruct t; try apply simres2_err.
+        + specialize (F32 (UErr (S (length r)))). destruct (fnorm b); try contradiction; exact F32.
+        + specialize (F64 (UErr (S (length r)))). destruct (fnorm b); try contradiction; exact F64.
+    Qed.
+
+    Lemma S2_unm_step f : S2_bare f -> S2_unm (S f).
+    Proof.
+      intros IHb t cur cur' ts ts' Hc H. rewrite !unmarshal_S. destruct (peel t) as [n base].
+      destruct n as [|n]; [apply IHb; assumption|].
+      split2 H x x' r r' Hx Hr HL Hall v v' tg Hg Hv.
+      vcases2 Hv v'; cbv beta iota;
+        try (apply simres2_ok; [apply jr_refl|exact Hr]);
+        (apply simres2_ubind;
+         [apply IHb; [apply inner_cur_rel; exact Hc|exact Hall]
+         |intros; apply simres2_ok; [apply jrel_wrap; assumption|assumption]]).
+    Qed.
+
+    Lemma S2_bare_step f : S2_entry f -> S2_kind f -> S2_bare (S f).
+    Proof.
+      intros IHe IHk t cur cur' ts ts' Hc H. rewrite !unmarshal_bare_S.
+      destruct (is_unnamed_prim t); [apply uprim2; assumption|].
+      destruct (atlas_get A t) as [e|] eqn:G.
+      - destruct (HgetS _ _ G) as (e' & -> & He). apply IHe; assumption.
+      - rewrite (HgetN _ G). apply IHk; assumption.
+    Qed.
+
+    Lemma nonempty2 (ts ts' : list token) : Forall2 trel2 ts ts' ->
+      sr (match ts with [] => UStarved | _ => UErr (length ts) end)
+         (match ts' with [] => UStarved | _ => UErr (length ts') end).
+    Proof. intros H. destruct H; [apply simres2_starved|apply simres2_err]. Qed.
+
+    Lemma S2_kind_step f : S2_slice f -> S2_array f -> S2_map f -> S2_any f -> S2_kind (S f).
+    Proof.
+      intros IHs IHa IHm IHy t cur cur' ts ts' Hc H. rewrite !unmarshal_kind_S.
+      destruct t; try (apply uprim2; assumption); try (apply nonempty2; exact H);
+        try (apply IHm; assumption); try (apply IHy; exact H).
+      - split2 H x x' r r' Hx Hr HL Hall v v' tg Hg Hv.
+        vcases2 Hv v'; cbv beta iota; try apply simres2_err; try (apply simres2_ok; [apply jr_refl|exact Hr]);
+          (apply IHs; [apply Forall2_nil|exact Hr]).
+      - split2 H x x' r r' Hx Hr HL Hall v v' tg Hg Hv.
+        vcases2 Hv v'; cbv beta iota; try apply simres2_err; try (apply simres2_ok; [apply jr_refl|exact Hr]);
+          (apply IHa; [apply Forall2_nil|exact Hr]).
+    Qed.
+
+    Lemma S2_any_step f : S2_bare f -> S2_map f -> S2_slice f -> S2_any (S f).
+    Proof.
+      intros IHb IHm IHs ts ts' H. rewrite !unmarshal_any_S.
+      split2 H x x' r r' Hx Hr HL Hall v v' tg Hg Hv.
+      destruct tg as [g|]; cbv beta iota zeta.
+      - rewrite (Htag g Hg). destruct (atlas_by_tag A g) as [e|]; [|apply simres2_err].
+        apply simres2_ubind; [apply IHb; [apply jr_refl|exact Hall]
+                             |intros; apply simres2_ok; [apply jr_any; assumption|assumption]].
+      - inversion Hv as [? ? Hb|b Hf]; subst.
+        + inversion Hb; subst; [destruct v'| | | | ]; cbv beta iota; try apply simres2_err;
+            try (apply simres2_ubind; [apply IHm; [apply jr_refl|exact Hall]
+                                      |intros; apply simres2_ok; [apply jr_any; assumption|assumption]]);
+            try (apply simres2_ubind; [apply IHs; [constructor|exact Hr]
+                                      |intros; apply simres2_ok; [apply jr_any; assumption|assumption]]);
+            cbn [uany_scalar]; try (apply simres2_ok; [apply jr_refl|exact Hr]).
+          * replace (z <=? max_i64) with true by lia. apply simres2_ok; [apply jr_refl|exact Hr].
+          * replace (z <=? max_i64) with true by lia. apply simres2_ok; [apply jr_refl|exact Hr].
+        + pose proof (Hfn _ Hf) as Hk. pose proof (jr_any_flt b Hf) as J. unfold any_back in J.
+          destruct (fnorm b); try contradiction; cbn [leaf_tok] in *; cbv beta iota;
+            (destruct (uany_scalar _) as [y|] eqn:Hy; [|discriminate Hy]); cbn [uany_scalar];
+            apply simres2_ok; assumption.
+    Qed.
+
+    Lemma S2_slice_step f : S2_unm f -> S2_slice f -> S2_slice (S f).
+    Proof.
+      intros IHu IHs et acc acc' ts ts' Ha H. rewrite !unmarshal_slice_S.
+      split2 H x x' r r' Hx Hr HL Hall v v' tg Hg Hv.
+      vcases2 Hv v'; cbv beta iota; try apply simres2_err;
+        try (apply simres2_ok; [apply jr_slice; apply F2_rev; exact Ha|exact Hr]);
+        (apply simres2_ubind; [apply IHu; [apply jr_refl|exact Hall]
+                              |intros; apply IHs; [constructor; assumption|assumption]]).
+    Qed.
+
+    Lemma S2_array_step f : S2_unm f -> S2_array f -> S2_array (S f).
+    Proof.
+      intros IHu IHa n et acc acc' ts ts' Ha H. rewrite !unmarshal_array_S.
+      pose proof (Forall2_length' _ _ _ Ha) as HLa.
+      split2 H x x' r r' Hx Hr HL Hall v v' tg Hg Hv.
+      vcases2 Hv v'; cbv beta iota; try apply simres2_err; rewrite <- ?HLa;
+        try (apply simres2_ok; [apply jr_arr; apply Forall2_app; [apply F2_rev; exact Ha|apply jrel_list_refl]|exact Hr]);
+        (destruct (Nat.leb n (length acc)); [apply simres2_err|];
+         apply simres2_ubind; [apply IHu; [apply jr_refl|exact Hall]
+                              |intros; apply IHa; [constructor; assumption|assumption]]).
+    Qed.
+
+    Lemma S2_map_step f : S2_mes f -> S2_map (S f).
+    Proof.
+      intros IHm kt vt cur cur' ts ts' Hc H. rewrite !unmarshal_map_S, (kd_eq A A' tgk HgetS HgetN).
+      destruct (key_destringer A kt) as [destr|]; [|apply nonempty2; exact H].
+      assert (Hes : Forall2 prel (match cur with GVMap (Some es) => es | _ => nil end)
+                                 (match cur' with GVMap (Some es) => es | _ => nil end)).
+      { destruct Hc; try constructor; try apply prel_list_refl.
+        - destruct (any_back_any b) as [o ->]. constructor.
+        - assumption. }
+      split2 H x x' r r' Hx Hr HL Hall v v' tg Hg Hv.
+      vcases2 Hv v'; cbv beta iota zeta; try apply simres2_err; try (apply simres2_ok; [apply jr_refl|exact Hr]);
+        apply IHm; assumption.
+    Qed.
+
+    Lemma existsb_prel kv es es' : Forall2 prel es es' ->
+      existsb (fun p => gval_key_eqb (fst p) kv) es' = existsb (fun p => gval_key_eqb (fst p) kv) es.
+    Proof. induction 1 as [|p p' es es' [Hk _] _ IH]; [reflexivity|]. cbn [existsb]. rewrite Hk, IH. reflexivity. Qed.
+
+    Lemma S2_mes_step f : S2_unm f -> S2_mes f -> S2_mes (S f).
+    Proof.
+      intros IHu IHm destr vt es es' ts ts' He H. rewrite !unmarshal_map_entries_S.
+      split2 H x x' r r' Hx Hr HL Hall v v' tg Hg Hv.
+      vcases2 Hv v'; cbv beta iota; try apply simres2_err;
+        try (apply simres2_ok; [apply jr_map; exact He|exact Hr]).
+      destruct (destr s) as [kv|]; [|apply simres2_err].
+      rewrite (existsb_prel kv es es' He). destruct (existsb _ es); [apply simres2_err|].
+      apply simres2_ubind; [apply IHu; [apply jr_refl|exact Hr]|].
+      intros y y' a a' Hy Ha. apply IHm; [|exact Ha].
+      apply Forall2_app; [exact He|]. constructor; [|constructor]. split; [reflexivity|exact Hy].
+    Qed.
+
+    Lemma S2_entry_step f : S2_bare f -> S2_fields f -> S2_entry f -> S2_map f -> S2_entry (S f).
+    Proof.
+      intros IHb IHf IHe IHm e e' cur cur' ts ts' (Hty & Hkd & Htg) Hc H. rewrite !unmarshal_entry_S, Hkd.
+      destruct (ae_kind e) as [fields|kind wire|members|mode].
+      - rewrite Hty. split2 H x x' r r' Hx Hr HL Hall v v' tg Hg Hv.
+        vcases2 Hv v'; cbv beta iota; try apply simres2_err; try (apply simres2_ok; [apply jr_refl|exact Hr]);
+          (apply IHf; auto).
+      - apply simres2_ubind.
+        + apply IHb; [apply jr_refl|]. apply untag_rel2; assumption.
+        + intros w w' a a' Hw Ha. destruct (tr_bwd kind w) as [y|] eqn:Hy; [|apply simres2_err].
+          destruct (tr_bwd_rel kind w w' y Hw Hy) as (y' & -> & Hyy). apply simres2_ok; assumption.
+      - split2 H x x' r r' Hx Hr HL Hall v v' tg Hg Hv.
+        assert (Core : forall d d', (d' = d \/ d' = -1) ->
+          sr (if (d =? -1) || (d =? 1) then
+                match r with
+                | [] => UStarved
+                | Tok (Str name) _ :: r2 =>
+                    match find (fun m => bytes_eqb (fst m) name) members with
+                    | None => UErr (length r)
+                    | Some (_, mt) =>
+                        match atlas_get A mt with
+                        | None => UErr (length r)
+                        | Some me =>
+                            ubind (unmarshal_entry E A f me (zero_of E mt) r2)
+                                  (fun mv r3 => match r3 with
+                                                | [] => UStarved
+                                                | Tok MapClose _ :: r4 => UOk (VAny (Some (mt, mv))) r4
+                                                | _ => UErr (length r3)
+                                                end)
+                        end
+                    end
+                | _ => UErr (length r)
+                end
+              else UErr (length (Tok (MapOpen d) tg :: r)))
+             (if (d' =? -1) || (d' =? 1) then
+                match r' with
+                | [] => UStarved
+                | Tok (Str name) _ :: r2 =>
+                    match find (fun m => bytes_eqb (fst m) name) members with
+                    | None => UErr (length r')
+                    | Some (_, mt) =>
+                        match atlas_get A' mt with
+                        | None => UErr (length r')
+                        | Some me =>
+                            ubind (unmarshal_entry E A' f me (zero_of E mt) r2)
+                                  (fun mv r3 => match r3 with
+                                                | [] => UStarved
+                                                | Tok MapClose _ :: r4 => UOk (VAny (Some (mt, mv))) r4
+                                                | _ => UErr (length r3)
+                                                end)
+                        end
+                    end
+                | _ => UErr (length r')
+                end
+              else UErr (length (Tok (MapOpen d') tg :: r')))).
+        { intros d d' Hd. destruct ((d =? -1) || (d =? 1)) eqn:C; [|apply simres2_err].
+          replace ((d' =? -1) || (d' =? 1)) with true by lia.
+          clear Hall HL Hx Hv.
+          split2 Hr y y' q q' Hy Hq HL2 Hall2 w w' tg2 Hg2 Hw.
+          vcases2 Hw w'; cbv beta iota; try apply simres2_err.
+          destruct (find _ members) as [[nm mt]|]; [|apply simres2_err].
+          destruct (atlas_get A mt) as [me|] eqn:G; [|apply simres2_err].
+          destruct (HgetS _ _ G) as (me' & -> & Hme).
+          apply simres2_ubind; [apply IHe; [assumption|apply jr_refl|assumption]|].
+          intros mv mv' a a' Hmv Ha.
+          split2 Ha z z' p p' Hz Hp HL3 Hall3 u u' tg3 Hg3 Hu.
+          vcases2 Hu u'; cbv beta iota; try apply simres2_err.
+          apply simres2_ok; [apply jr_any; exact Hmv|exact Hp]. }
+        vcases2 Hv v'; cbv beta iota; try apply simres2_err.
+        + apply Core. auto.
+        + apply Core. assumption.
+      - rewrite Hty. destruct (strip_named (ae_type e)); try (apply nonempty2; exact H).
+        apply IHm; assumption.
+    Qed.
+
+    Lemma S2_fields_step f : S2_any f -> S2_unm f -> S2_fields f -> S2_fields (S f).
+    Proof.
+      intros IHy IHu IHf st fields len len' cur cur' count ts ts' Hl Hc H. rewrite !unmarshal_fields_S.
+      split2 H x x' r r' Hx Hr HL Hall v v' tg Hg Hv.
+      vcases2 Hv v'; cbv beta iota; try apply simres2_err.
+      - destruct ((0 <=? len) && negb (len =? count)) eqn:C; [apply simres2_err|].
+        replace ((0 <=? len') && negb (len' =? count)) with false by lia.
+        apply simres2_ok; assumption.
+      - destruct (find _ fields) as [fe|]; [|apply simres2_err].
+        destruct (fe_ignore fe).
+        + apply simres2_ubind; [apply IHy; exact Hr|intros; apply IHf; assumption].
+        + pose proof Hr as Hr0. destruct Hr as [|y y' q q' Hy Hq]; [apply simres2_starved|].
+          destruct (route_get E 50 st cur (fe_route fe)) as [fcur|] eqn:Hrg; [|apply simres2_err].
+          destruct (route_get_rel E _ _ _ _ _ _ Hc Hrg) as (fcur' & -> & Hfc).
+          apply simres2_ubind; [apply IHu; assumption|].
+          intros fv fv' a a' Hfv Ha.
+          destruct (route_set E 50 st cur (fe_route fe) fv) as [c|] eqn:Hrs; [|apply simres2_err].
+          destruct (route_set_rel E _ _ _ _ _ _ _ _ Hc Hfv Hrs) as (c' & -> & Hcc).
+          apply IHf; assumption.
+    Qed.
+
+    Lemma sim2_all : forall f,
+      S2_unm f /\ S2_bare f /\ S2_kind f /\ S2_any f /\ S2_slice f /\ S2_array f /\ S2_map f /\ S2_mes f /\
+      S2_entry f /\ S2_fields f.
+    Proof.
+      induction f as [|f (IHu & IHb & IHk & IHy & IHs & IHa & IHm & IHme & IHe & IHf)].
+      - repeat split; intro; intros; apply simres2_fuel.
+      - repeat split.
+        + apply S2_unm_step; assumption.
+        + apply S2_bare_step; assumption.
+        + apply S2_kind_step; assumption.
+        + apply S2_any_step; assumption.
+        + apply S2_slice_step; assumption.
+        + apply S2_array_step; assumption.
+        + apply S2_map_step; assumption.
+        + apply S2_mes_step; assumption.
+        + apply S2_entry_step; assumption.
+        + apply S2_fields_step; assumption.
+    Qed.
+
+    Theorem unmarshal_respell2 : forall f t cur ts ts' v rest,
+      Forall2 trel2 ts ts' -> unmarshal E A f t cur ts = UOk v rest ->
+      exists v' rest', unmarshal E A' f t cur ts' = UOk v' rest' /\ jrel v v' /\ Forall2 trel2 rest rest'.
+    Proof.
+      intros f t cur ts ts' v rest H U. destruct (sim2_all f) as (Hu & _).
+      exact (Hu t cur cur ts ts' (jr_refl cur) H v rest U).
+    Qed.
+  End Sim2.
+End JsonFloats.
+Print Assumptions unmarshal_respell2.
+
+(* ---------- JSON end to end, all floats the oracle covers ----------------------------- *)
+
+Section JsonE2EF.
+  Variable sh : Z -> list Z * Z.
+  Variable float_okb : Z -> bool.
+  Variable fnorm : Z -> tval.
+  Hypothesis Hflt : forall b rest, float_okP float_okb b -> terminator_ok rest ->
+    exists first more, emit_float sh b = Some [first :: more] /\
+      (first = 45 \/ is_digit first = true) /\
+      is_leaf (fnorm b) = true /\
+      dec_number first (more ++ rest) = inl (leaf_tok (fnorm b), rest) /\
+      match fnorm b with VInt _ | VUint _ | VFlt _ => True | _ => False end.
+
+  Notation fok := (float_okP float_okb).
+
+  Lemma Hfn_of_Hflt : forall b, fok b ->
+    match fnorm b with VInt _ | VUint _ | VFlt _ => True | _ => False end.
+  Proof. intros b H. destruct (Hflt b [] H I) as (first & more & _ & _ & _ & _ & Hk). exact Hk. Qed.
+
+  Definition json_toks_okf (ts : list token) : bool := forallb (json_tok_okf float_okb) ts.
+  Definition json_reprf (E : tenv) (A : atlas) (t : gtype) (v : gval) : bool :=
+    match marshal_top E A t v with MOk ts => json_toks_okf ts | _ => true end.
+
+  Lemma jnorm_rel2 ts : json_toks_okf ts = true ->
+    Forall2 (trel2 fnorm fok notag) (map untag_tok ts) (map (jnorm_tok fnorm) ts).
+  Proof.
+    unfold json_toks_okf.
+    induction ts as [|[v tg] ts IH]; cbn [forallb map]; intros H; [constructor|].
+    apply andb_true_iff in H. destruct H as [H1 H2]. constructor; [|apply IH; exact H2].
+    unfold trel2, untag_tok, jnorm_tok, json_tok_okf, notag in *. cbn [tv tag] in *.
+    split; [reflexivity|]. split; [reflexivity|].
+    destruct v; try (apply vr2_base; apply vr_refl); try discriminate.
+    - apply vr2_base. apply vr_map. auto.
+    - apply vr2_base. apply vr_arr.
+    - apply andb_prop in H1. destruct H1 as [_ H1]. rewrite (coerce_valid_utf8 _ H1). apply vr2_base, vr_refl.
+    - apply vr2_base. unfold max_int64. destruct (Z.leb_spec u 9223372036854775807); [|apply vr_refl].
+      apply vr_ui. unfold max_i64. lia.
+    - apply vr2_flt. exact H1.
+  Qed.
+
+  Lemma json_coref o E A t v f ts :
+    ws_opts o ->
+    atlas_wf E A = true -> cranked A 3 = true -> wt E A t v -> domb E (untag_atlas A) t v = true ->
+    marshal A f t v = MOk ts -> json_toks_okf ts = true ->
+    exists bs v' v'',
+      json_encode sh o ts = Some bs /\
+      json_unmarshal E A t bs = Some (UTDone (length ts) v'') /\
+      req E A t v v' /\ jrel fnorm fok v' v''.
+  Proof.
+    intros Ho Hwf Hcr Hw Hd H Hc.
+    destruct (marshal_wf A f t v ts H) as (n & -> & Hp & Hx).
+    pose proof (toks_json_okf sh float_okb fnorm Hflt n Hc Hp) as Hn.
+    destruct (json_encode_parses sh fok fnorm Hflt o n [] Ho Hn I) as (chunks & Hrun & fuel & Hpj).
+    rewrite !app_nil_r in Hpj.
+    pose proof (jdec_complete fuel _ _ _ (strict_implies_lenient _ _ _ _ Hpj)) as Hdec.
+    rewrite (flatten_jnorm sh fok fnorm Hflt n Hn) in Hdec.
+    pose proof (marshal_untag A f t v _ H) as H0.
+    assert (Hw0 : wt E (untag_atlas A) t v) by (unfold wt; rewrite wtb_untag; exact Hw).
+    destruct (roundtrip_general E (untag_atlas A) t v f _ (atlas_wf_untag E A Hwf) Hw0 Hd H0)
+      as (v' & Hreq & Hw' & [F HF] & _).
+    (* the value the JSON tokens give: the same for every sufficient fuel *)
+    assert (R2 : forall f', (F <= f')%nat -> exists v'',
+               unmarshal E A f' t (zero 50 E t) (map (jnorm_tok fnorm) (flatten n)) = UOk v'' [] /\
+               jrel fnorm fok v' v'').
+    { intros f' Hle. specialize (HF f' [] Hle). rewrite app_nil_r in HF.
+      destruct (unmarshal_respell2 fnorm fok Hfn_of_Hflt E (untag_atlas A) A notag) with
+        (f := f') (t := t) (cur := zero 50 E t) (ts := map untag_tok (flatten n))
+        (ts' := map (jnorm_tok fnorm) (flatten n)) (v := v') (rest := @nil token)
+        as (v'' & rest' & U & Hj & Hr).
+      - intros t0 e G. rewrite atlas_get_untag in G. destruct (atlas_get A t0) as [e0|]; [|discriminate].
+        cbn in G. inversion G; subst. exists e0. split; [reflexivity|]. repeat split.
+        intros g Hg. discriminate Hg.
+      - intros t0 G. rewrite atlas_get_untag in G. destruct (atlas_get A t0); [discriminate|reflexivity].
+      - intros g Hg. discriminate Hg.
+      - reflexivity.
+      - apply jnorm_rel2. exact Hc.
+      - exact HF.
+      - inversion Hr; subst. exists v''. auto. }
+    destruct (R2 F (le_n _)) as (v'' & U0 & Hj).
+    exists (concat chunks), v', v''. split; [|split; [|split; [apply req_untag; exact Hreq|exact Hj]]].
+    - unfold json_encode. rewrite Hrun, Nat.eqb_refl. reflexivity.
+    - unfold json_unmarshal. rewrite Hdec.
+      pose proof (top_tail_ws o n Ho) as Hws. unfold ws_bytes in Hws. rewrite Hws. f_equal.
+      rewrite <- (map_length (jnorm_tok fnorm) (flatten n)).
+      apply unmarshal_top_done; [exact Hwf|exact Hcr|].
+      exists F. intros f' Hle.
+      eapply RoundTripProof.unmarshal_fuel_mono; [exact U0|discriminate|exact Hle].
+  Qed.
+
+  Lemma json_marshal_invf o E A t v bs :
+    json_marshal sh o E A t v = Some bs ->
+    exists ts, marshal A (200 + 12 * vsize 100 v) t v = MOk ts /\ json_encode sh o ts = Some bs /\
+               json_reprf E A t v = json_toks_okf ts.
+  Proof.
+    unfold json_marshal, json_reprf. rewrite marshal_top_eq.
+    generalize (200 + 12 * vsize 100 v)%nat. intros f.
+    destruct (marshal A f t v) as [ts| |]; try discriminate. intros H. exists ts. auto.
+  Qed.
+
+  (* C01 at the byte level, JSON, with every float the oracle covers: the value read back
+     is the token-level round-trip value v' up to how floats read back ([jrel]) *)
+  Theorem json_end_to_end_floats : forall o E A t v bs,
+    ws_opts o ->
+    atlas_wf E A = true -> cranked A 3 = true ->
+    wt E A t v -> domb E (untag_atlas A) t v = true -> json_reprf E A t v = true ->
+    json_marshal sh o E A t v = Some bs ->
+    exists n v' v'', json_unmarshal E A t bs = Some (UTDone n v'') /\
+                     req E A t v v' /\ jrel fnorm fok v' v''.
+  Proof.
+    intros o E A t v bs Ho Hwf Hcr Hw Hd Hc Hm.
+    destruct (json_marshal_invf o E A t v bs Hm) as (ts & M & Hm' & Hc'). rewrite Hc' in Hc. clear Hm Hc'.
+    revert M. generalize (200 + 12 * vsize 100 v)%nat. intros f0 M.
+    destruct (json_coref o E A t v _ ts Ho Hwf Hcr Hw Hd M Hc) as (bs' & v' & v'' & He & Hu & Hr & Hj).
+    rewrite Hm' in He. inversion He; subst bs'. exists (length ts), v', v''. auto.
+  Qed.
+End JsonE2EF.
+Print Assumptions json_end_to_end_floats.
+
+(* ---------- what [jrel] is about: a kernel-evaluated instance --------------------------- *)
+(* struct { F float64; G float32; X interface{}; Z float64 } with F = 1.5, G = 1.0,
+   X = float64 1.0, Z = -0.0 and an oracle giving the shortest digits of these three floats.
+   The text is {"f":1.5,"g":1,"x":1,"z":-0}.  Read back: F and G are the same floats (G through
+   the integer 1); the untyped slot X holds the int 1, not the float64 1.0; Z is +0.0: the
+   sign of the negative zero is lost ("-0" is read as the integer 0). *)
+Definition jf_E : tenv := [(1, [GF64; GF32; GAny; GF64])].
+Definition jf_A : atlas :=
+  Atlas [AE (GStruct 1) None
+            (EStruct [FE [102] [0%nat] GF64 false false;
+                      FE [103] [1%nat] GF32 false false;
+                      FE [120] [2%nat] GAny false false;
+                      FE [122] [3%nat] GF64 false false])] 0.
+Definition jf_b15 : Z := 4609434218613702656.      (* 1.5 *)
+Definition jf_b10 : Z := 4607182418800017408.      (* 1.0 *)
+Definition jf_bm0 : Z := 9223372036854775808.      (* -0.0 *)
+Definition jf_sh (b : Z) : list Z * Z :=
+  if b =? jf_b15 then ([1; 5], 1) else if b =? jf_b10 then ([1], 1) else ([], 0).
+Definition jf_v : gval :=
+  VStruct [GVFlt jf_b15; GVFlt jf_b10; VAny (Some (GF64, GVFlt jf_b10)); GVFlt jf_bm0].
+Definition jf_text : bytes :=
+  [123; 34; 102; 34; 58; 49; 46; 53; 44; 34; 103; 34; 58; 49; 44; 34; 120; 34; 58; 49; 44; 34; 122; 34; 58; 45; 48; 125].
+
+Example json_float_readback :
+  json_marshal jf_sh (JOpts None []) jf_E jf_A (GStruct 1) jf_v = Some jf_text /\
+  json_unmarshal jf_E jf_A (GStruct 1) jf_text =
+    Some (UTDone 10 (VStruct [GVFlt jf_b15; GVFlt jf_b10; VAny (Some (GNum IInt, VNum 1)); GVFlt 0])).
+Proof. vm_compute. split; reflexivity. Qed.
+
+(* ---------- the oracle hypothesis is satisfiable: an instance with a real float ---------- *)
+(* floats: 1.5 only; oracle: [jf_sh]; the text "1.5" reads back as the float 1.5 *)
+Definition f15_ok : Z -> bool := fun b => b =? jf_b15.
+Definition f15_norm : Z -> tval := fun _ => VFlt jf_b15.
+
+Lemma f15_hyp : forall b rest, float_okP f15_ok b -> terminator_ok rest ->
+  exists first more, emit_float jf_sh b = Some [first :: more] /\
+    (first = 45 \/ is_digit first = true) /\
+    is_leaf (f15_norm b) = true /\
+    dec_number first (more ++ rest) = inl (leaf_tok (f15_norm b), rest) /\
+    match f15_norm b with VInt _ | VUint _ | VFlt _ => True | _ => False end.
+Proof.
+  intros b rest Hb Ht. unfold float_okP, f15_ok in Hb. apply Z.eqb_eq in Hb. subst b.
+  exists 49, [46; 53]. split; [vm_compute; reflexivity|]. split; [right; reflexivity|].
+  split; [reflexivity|]. split; [|exact I].
+  assert (Hs : num_scan N1 ([46; 53] ++ rest) [] = inl ([46; 53], rest)).
+  { cbn [app num_scan]. change (num_step N1 46) with (Some NDot, true). cbv beta iota.
+    cbn [num_scan]. change (num_step NDot 53) with (Some NDot0, true). cbv beta iota.
+    destruct rest as [|c r]; [reflexivity|].
+    cbn [num_scan]. cbn [terminator_ok] in Ht. unfold is_numchar in Ht.
+    repeat (apply orb_false_iff in Ht; destruct Ht as [Ht ?]).
+    unfold num_step. rewrite Ht.
+    replace ((c =? 101) || (c =? 69)) with false by (symmetry; apply orb_false_iff; split; assumption).
+    reflexivity. }
+  unfold dec_number. change (49 =? 45) with false. change (49 =? 48) with false. cbv beta iota.
+  rewrite Hs. vm_compute. reflexivity.
+Qed.
+
+(* hence, unconditionally, for values whose only float is 1.5 (and with this oracle): *)
+Corollary json_end_to_end_f15 : forall o E A t v bs,
+  ws_opts o ->
+  atlas_wf E A = true -> cranked A 3 = true ->
+  wt E A t v -> domb E (untag_atlas A) t v = true -> json_repr f15_ok f15_norm E A t v = true ->
+  json_marshal jf_sh o E A t v = Some bs ->
+  exists n v', json_unmarshal E A t bs = Some (UTDone n v') /\ req E A t v v' /\ wt E A t v'.
+Proof. exact (json_end_to_end jf_sh f15_ok f15_norm f15_hyp). Qed.
+Print Assumptions json_end_to_end_f15.
+
+Example json_f15_instance :
+  json_repr f15_ok f15_norm jf_E jf_A (GStruct 1)
+            (VStruct [GVFlt jf_b15; GVFlt jf_b15; VAny (Some (GF64, GVFlt jf_b15)); GVFlt jf_b15]) = true /\
+  json_repr f15_ok f15_norm jf_E jf_A (GStruct 1) jf_v = false.
+Proof. vm_compute. split; reflexivity. Qed.
+
+(* ====================================================================== *)
+(* Part 7.  The CBOR respelling, as an equation                              *)
+(* ====================================================================== *)
+
+(* When declared map lengths are >= -1 (so that the canonical spelling does not change
+   them) and Int tokens are at most MaxInt64, the unmarshaller's outcome on the canonical
+   spelling is its outcome on the original list: the same value with the respelled rest,
+   the same error at the same position, starved alike.  (Part 1 gives, for successful
+   runs, more respellings; it says nothing about failing runs.) *)
+
+Inductive vrelS : tokv -> tokv -> Prop :=
+| vs_refl v : vrelS v v
+| vs_arr d d' : vrelS (ArrOpen d) (ArrOpen d')
+| vs_iu z : z <= max_i64 -> vrelS (Int z) (Uint z).
+
+Definition trelS (t t' : token) : Prop := tag t' = tag t /\ vrelS (tv t) (tv t').
+
+Definition seqr (r r' : ures) : Prop :=
+  match r, r' with
+  | UOk v a, UOk v' a' => v' = v /\ Forall2 trelS a a'
+  | UErr k, UErr k' => k' = k
+  | UStarved, UStarved => True
+  | UFuel, UFuel => True
+  | _, _ => False
+  end.
+
+Lemma seqr_ok v a a' : Forall2 trelS a a' -> seqr (UOk v a) (UOk v a').
+Proof. intros H. split; [reflexivity|exact H]. Qed.
+
+Lemma seqr_err k k' : k' = k -> seqr (UErr k) (UErr k').
+Proof. intros H. exact H. Qed.
+
+Lemma seqr_ubind r r' k k' :
+  seqr r r' -> (forall x a a', Forall2 trelS a a' -> seqr (k x a) (k' x a')) ->
+  seqr (ubind r k) (ubind r' k').
+Proof.
+  intros H Hk. destruct r, r'; cbn [seqr ubind] in *; try contradiction; try assumption.
+  destruct H as [-> Ha]. apply Hk. exact Ha.
+Qed.
+
+Lemma FS_len (a a' : list token) : Forall2 trelS a a' -> length a' = length a.
+Proof. induction 1; cbn; congruence. Qed.
+
+Lemma trelS_inv t t' : trelS t t' -> exists v v' tg, t = Tok v tg /\ t' = Tok v' tg /\ vrelS v v'.
+Proof. destruct t as [v tg], t' as [v' tg']. intros (H1 & H2). cbn in *. subst. eauto 8. Qed.
+
+Section SimS.
+  Variable E : tenv.
+  Variable A : atlas.
+
+  Definition E_unm f := forall t cur ts ts', Forall2 trelS ts ts' ->
+    seqr (unmarshal E A f t cur ts) (unmarshal E A f t cur ts').
+  Definition E_bare f := forall t cur ts ts', Forall2 trelS ts ts' ->
+    seqr (unmarshal_bare E A f t cur ts) (unmarshal_bare E A f t cur ts').
+  Definition E_kind f := forall t cur ts ts', Forall2 trelS ts ts' ->
+    seqr (unmarshal_kind E A f t cur ts) (unmarshal_kind E A f t cur ts').
+  Definition E_any f := forall ts ts', Forall2 trelS ts ts' ->
+    seqr (unmarshal_any E A f ts) (unmarshal_any E A f ts').
+  Definition E_slice f := forall et acc ts ts', Forall2 trelS ts ts' ->
+    seqr (unmarshal_slice E A f et acc ts) (unmarshal_slice E A f et acc ts').
+  Definition E_array f := forall n et acc ts ts', Forall2 trelS ts ts' ->
+    seqr (unmarshal_array E A f n et acc ts) (unmarshal_array E A f n et acc ts').
+  Definition E_map f := forall kt vt cur ts ts', Forall2 trelS ts ts' ->
+    seqr (unmarshal_map E A f kt vt cur ts) (unmarshal_map E A f kt vt cur ts').
+  Definition E_mes f := forall destr vt es ts ts', Forall2 trelS ts ts' ->
+    seqr (unmarshal_map_entries E A f destr vt es ts) (unmarshal_map_entries E A f destr vt es ts').
+  Definition E_entry f := forall e cur ts ts', Forall2 trelS ts ts' ->
+    seqr (unmarshal_entry E A f e cur ts) (unmarshal_entry E A f e cur ts').
+  Definition E_fields f := forall st fields len cur count ts ts', Forall2 trelS ts ts' ->
+    seqr (unmarshal_fields E A f st fields len cur count ts) (unmarshal_fields E A f st fields len cur count ts').
+
+  Ltac splitS H x x' r r' Hx Hr HL Hall v v' tg Hv :=
+    destruct H as [|x x' r r' Hx Hr]; [try exact I|];
+    [pose proof (FS_len _ _ Hr) as HL;
+     assert (Hall : Forall2 trelS (x :: r) (x' :: r')) by (constructor; assumption);
+     destruct (trelS_inv _ _ Hx) as (v & v' & tg & -> & -> & Hv)].
+
+  Ltac vcasesS Hv v' := inversion Hv; subst; [destruct v'| | ].
+  Ltac serr HL := apply seqr_err; cbn [length] in *; congruence.
+
+  Lemma untagS tg ts ts' : Forall2 trelS ts ts' -> Forall2 trelS (untag_own tg ts) (untag_own tg ts').
+  Proof.
+    intros H. destruct H as [|[v tt] [v' tt'] r r' (H1 & H2) Hr]; [destruct tg; constructor|].
+    cbn [tag tv] in *. subst tt'. destruct tg as [t0|]; cbn [untag_own]; [|constructor; [split|]; auto].
+    destruct tt as [g|]; [|constructor; [split|]; auto].
+    destruct (t0 =? g); constructor; auto; split; auto.
+  Qed.
+
+  Lemma uprimS t cur ts ts' : Forall2 trelS ts ts' -> seqr (uprim t cur ts) (uprim t cur ts').
+  Proof.
+    intros H. destruct H as [|x x' r r' Hx Hr]; [exact I|].
+    pose proof (FS_len _ _ Hr) as HL.
+    destruct (trelS_inv _ _ Hx) as (v & v' & tg & -> & -> & Hv).
+    unfold uprim. cbn [length]. rewrite HL.
+    inversion Hv; subst.
+    - destruct t; destruct v'; try reflexivity; try (apply seqr_ok; exact Hr);
+        (match goal with |- seqr (if ?c then _ else _) _ => destruct c end; [apply seqr_ok; exact Hr|reflexivity]).
+    - destruct t; reflexivity.
+    - destruct t; try reflexivity; try (apply seqr_ok; exact Hr).
+      destruct (in_kind k z); [apply seqr_ok; exact Hr|reflexivity].
+  Qed.
+
+  Lemma nonemptyS (ts ts' : list token) : Forall2 trelS ts ts' ->
+    seqr (match ts with [] => UStarved | _ => UErr (length ts) end)
+         (match ts' with [] => UStarved | _ => UErr (length ts') end).
+  Proof.
+    intros H. pose proof (FS_len _ _ H) as HL. destruct H; [exact I|]. apply seqr_err. exact HL.
+  Qed.
+
+  Lemma E_unm_step f : E_bare f -> E_unm (S f).
+  Proof.
+    intros IHb t cur ts ts' H. rewrite !unmarshal_S. destruct (peel t) as [n base].
+    destruct n as [|n]; [apply IHb; exact H|].
+    splitS H x x' r r' Hx Hr HL Hall v v' tg Hv.
+    vcasesS Hv v'; cbv beta iota;
+      try (apply seqr_ok; exact Hr);
+      (apply seqr_ubind; [apply IHb; exact Hall | intros; apply seqr_ok; assumption]).
+  Qed.
+
+  Lemma E_bare_step f : E_entry f -> E_kind f -> E_bare (S f).
+  Proof.
+    intros IHe IHk t cur ts ts' H. rewrite !unmarshal_bare_S.
+    destruct (is_unnamed_prim t); [apply uprimS; exact H|].
+    destruct (atlas_get A t) as [e|]; [apply IHe|apply IHk]; exact H.
+  Qed.
+
+  Lemma E_kind_step f : E_slice f -> E_array f -> E_map f -> E_any f -> E_kind (S f).
+  Proof.
+    intros IHs IHa IHm IHy t cur ts ts' H. rewrite !unmarshal_kind_S.
+    destruct t; try (apply uprimS; exact H); try (apply nonemptyS; exact H);
+      try (apply IHm; exact H); try (apply IHy; exact H).
+    - splitS H x x' r r' Hx Hr HL Hall v v' tg Hv.
+      vcasesS Hv v'; cbv beta iota; try (serr HL); try (apply seqr_ok; exact Hr); apply IHs; exact Hr.
+    - splitS H x x' r r' Hx Hr HL Hall v v' tg Hv.
+      vcasesS Hv v'; cbv beta iota; try (serr HL); try (apply seqr_ok; exact Hr); apply IHa; exact Hr.
+  Qed.
+
+  Lemma E_any_step f : E_bare f -> E_map f -> E_slice f -> E_any (S f).
+  Proof.
+    intros IHb IHm IHs ts ts' H. rewrite !unmarshal_any_S.
+    splitS H x x' r r' Hx Hr HL Hall v v' tg Hv.
+    destruct tg as [g|]; cbv beta iota zeta.
+    - destruct (atlas_by_tag A g) as [e|]; [|serr HL].
+      apply seqr_ubind; [apply IHb; exact Hall|intros; apply seqr_ok; assumption].
+    - vcasesS Hv v'; cbv beta iota; try (serr HL);
+        try (apply seqr_ubind; [apply IHm; exact Hall|intros; apply seqr_ok; assumption]);
+        try (apply seqr_ubind; [apply IHs; exact Hr|intros; apply seqr_ok; assumption]);
+        cbn [uany_scalar]; try (apply seqr_ok; exact Hr).
+      replace (z <=? max_i64) with true by lia. apply seqr_ok; exact Hr.
+  Qed.
+
+  Lemma E_slice_step f : E_unm f -> E_slice f -> E_slice (S f).
+  Proof.
+    intros IHu IHs et acc ts ts' H. rewrite !unmarshal_slice_S.
+    splitS H x x' r r' Hx Hr HL Hall v v' tg Hv.
+    vcasesS Hv v'; cbv beta iota; try (serr HL); try (apply seqr_ok; exact Hr);
+      (apply seqr_ubind; [apply IHu; exact Hall|intros; apply IHs; assumption]).
+  Qed.
+
+  Lemma E_array_step f : E_unm f -> E_array f -> E_array (S f).
+  Proof.
+    intros IHu IHa n et acc ts ts' H. rewrite !unmarshal_array_S.
+    splitS H x x' r r' Hx Hr HL Hall v v' tg Hv.
+    vcasesS Hv v'; cbv beta iota; try (serr HL); try (apply seqr_ok; exact Hr);
+      (destruct (Nat.leb n (length acc)); [serr HL|];
+       apply seqr_ubind; [apply IHu; exact Hall|intros; apply IHa; assumption]).
+  Qed.
+
+  Lemma E_map_step f : E_mes f -> E_map (S f).
+  Proof.
+    intros IHm kt vt cur ts ts' H. rewrite !unmarshal_map_S.
+    destruct (key_destringer A kt) as [destr|]; [|apply nonemptyS; exact H].
+    splitS H x x' r r' Hx Hr HL Hall v v' tg Hv.
+    vcasesS Hv v'; cbv beta iota zeta; try (serr HL); try (apply seqr_ok; exact Hr); apply IHm; exact Hr.
+  Qed.
+
+  Lemma E_mes_step f : E_unm f -> E_mes f -> E_mes (S f).
+  Proof.
+    intros IHu IHm destr vt es ts ts' H. rewrite !unmarshal_map_entries_S.
+    splitS H x x' r r' Hx Hr HL Hall v v' tg Hv.
+    vcasesS Hv v'; cbv beta iota; try (serr HL); try (apply seqr_ok; exact Hr).
+    destruct (destr s) as [kv|]; [|serr HL].
+    destruct (existsb _ es); [serr HL|].
+    apply seqr_ubind; [apply IHu; exact Hr|intros; apply IHm; assumption].
+  Qed.
+
+  Lemma E_entry_step f : E_bare f -> E_fields f -> E_entry f -> E_map f -> E_entry (S f).
+  Proof.
+    intros IHb IHf IHe IHm e cur ts ts' H. rewrite !unmarshal_entry_S.
+    destruct (ae_kind e) as [fields|kind wire|members|mode].
+    - splitS H x x' r r' Hx Hr HL Hall v v' tg Hv.
+      vcasesS Hv v'; cbv beta iota; try (serr HL); try (apply seqr_ok; exact Hr); apply IHf; exact Hr.
+    - apply seqr_ubind.
+      + apply IHb. apply untagS. exact H.
+      + intros w a a' Ha. pose proof (FS_len _ _ Ha) as HLa.
+        destruct (tr_bwd kind w); [apply seqr_ok; exact Ha|apply seqr_err; congruence].
+    - splitS H x x' r r' Hx Hr HL Hall v v' tg Hv.
+      vcasesS Hv v'; cbv beta iota; try (serr HL).
+      destruct ((len =? -1) || (len =? 1)); [|serr HL].
+      clear Hall Hx Hv.
+      splitS Hr y y' q q' Hy Hq HL2 Hall2 w w' tg2 Hw.
+      vcasesS Hw w'; cbv beta iota; try (serr HL).
+      destruct (find _ members) as [[nm mt]|]; [|serr HL].
+      destruct (atlas_get A mt) as [me|]; [|serr HL].
+      apply seqr_ubind; [apply IHe; exact Hq|].
+      intros mv a a' Ha.
+      splitS Ha z z' p p' Hz Hp HL3 Hall3 u u' tg3 Hu.
+      vcasesS Hu u'; cbv beta iota; try (serr HL3). apply seqr_ok; exact Hp.
+    - destruct (strip_named (ae_type e)); try (apply nonemptyS; exact H). apply IHm; exact H.
+  Qed.
+
+  Lemma E_fields_step f : E_any f -> E_unm f -> E_fields f -> E_fields (S f).
+  Proof.
+    intros IHy IHu IHf st fields len cur count ts ts' H. rewrite !unmarshal_fields_S.
+    splitS H x x' r r' Hx Hr HL Hall v v' tg Hv.
+    vcasesS Hv v'; cbv beta iota; try (serr HL).
+    - destruct ((0 <=? len) && negb (len =? count)); [serr HL|apply seqr_ok; exact Hr].
+    - destruct (find _ fields) as [fe|]; [|serr HL].
+      destruct (fe_ignore fe).
+      + apply seqr_ubind; [apply IHy; exact Hr|intros; apply IHf; assumption].
+      + pose proof Hr as Hr0. destruct Hr as [|y y' q q' Hy Hq]; [exact I|].
+        destruct (route_get E 50 st cur (fe_route fe)) as [fcur|]; [|serr HL].
+        apply seqr_ubind; [apply IHu; exact Hr0|].
+        intros fv a a' Ha. destruct (route_set E 50 st cur (fe_route fe) fv); [|serr HL].
+        apply IHf; assumption.
+  Qed.
+
+  Lemma simS_all : forall f,
+    E_unm f /\ E_bare f /\ E_kind f /\ E_any f /\ E_slice f /\ E_array f /\ E_map f /\ E_mes f /\
+    E_entry f /\ E_fields f.
+  Proof.
+    induction f as [|f (IHu & IHb & IHk & IHy & IHs & IHa & IHm & IHme & IHe & IHf)].
+    - repeat split; intro; intros; exact I.
+    - repeat split.
+      + apply E_unm_step; assumption.
+      + apply E_bare_step; assumption.
+      + apply E_kind_step; assumption.
+      + apply E_any_step; assumption.
+      + apply E_slice_step; assumption.
+      + apply E_array_step; assumption.
+      + apply E_map_step; assumption.
+      + apply E_mes_step; assumption.
+      + apply E_entry_step; assumption.
+      + apply E_fields_step; assumption.
+  Qed.
+End SimS.
+
+Definition canon_in (t : token) : bool :=
+  match tv t with Int z => z <=? max_i64 | MapOpen d => -1 <=? d | _ => true end.
+
+Lemma canon_relS ts : forallb canon_in ts = true -> Forall2 trelS ts (map canon_tok ts).
+Proof.
+  induction ts as [|[v tg] ts IH]; cbn [forallb map]; intros H; [constructor|].
+  apply andb_true_iff in H. destruct H as [H1 H2]. constructor; [|apply IH; exact H2].
+  unfold trelS, canon_tok, canon_in in *. cbn [tv tag] in *.
+  destruct v; cbn [tv tag]; split; try reflexivity; try apply vs_refl.
+  - replace (if 0 <=? len then len else -1) with len by (destruct (Z.leb_spec 0 len); lia). apply vs_refl.
+  - apply vs_arr.
+  - destruct (0 <=? i); [apply vs_iu; lia|apply vs_refl].
+Qed.
+
+Lemma app_suffix_eq {X} : forall (l1 l2 a b : list X), l1 ++ a = l2 ++ b -> length a = length b -> a = b.
+Proof.
+  induction l1 as [|x l1 IH]; intros [|y l2] a b H HL; cbn [app] in H.
+  - exact H.
+  - subst a. cbn [length] in HL. rewrite app_length in HL. lia.
+  - subst b. cbn [length] in HL. rewrite app_length in HL. lia.
+  - inversion H. eapply IH; eassumption.
+Qed.
+
+(* The key lemma in the form of an equation. *)
+Theorem unmarshal_canon_eq : forall E A f t cur ts,
+  forallb canon_in ts = true ->
+  unmarshal E A f t cur (map canon_tok ts) =
+  match unmarshal E A f t cur ts with
+  | UOk v rest => UOk v (map canon_tok rest)
+  | r => r
+  end.
+Proof.
+  intros E A f t cur ts Hc. destruct (simS_all E A f) as (Hu & _).
+  pose proof (Hu t cur ts _ (canon_relS ts Hc)) as S.
+  destruct (unmarshal E A f t cur ts) as [v a|k| |] eqn:U1;
+    destruct (unmarshal E A f t cur (map canon_tok ts)) as [v' a'|k'| |] eqn:U2;
+    cbn [seqr] in S; try contradiction; try reflexivity.
+  - destruct S as [-> Ha]. f_equal.
+    destruct (unmarshal_done_wf E A f t cur ts v a U1) as (u1 & n1 & E1 & _).
+    destruct (unmarshal_done_wf E A f t cur _ v a' U2) as (u2 & n2 & E2 & _).
+    rewrite E1, map_app in E2. symmetry in E2.
+    apply (app_suffix_eq _ _ _ _ E2). rewrite map_length. apply FS_len. exact Ha.
+  - subst. reflexivity.
+Qed.
+Print Assumptions unmarshal_canon_eq.
+
+(* the condition on declared lengths is needed for the equation (not for Part 1's direction) *)
+Example canon_eq_needs_lengths :
+  forallb canon_in ru_ts = false /\
+  unmarshal ru_E ru_A 30 (GIface 1) (VAny None) (map canon_tok ru_ts) <>
+  match unmarshal ru_E ru_A 30 (GIface 1) (VAny None) ru_ts with
+  | UOk v rest => UOk v (map canon_tok rest)
+  | r => r
+  end.
+Proof. split; [vm_compute; reflexivity|]. vm_compute. discriminate. Qed.
